@@ -1,40 +1,35 @@
 (* C10, continued: the engine's STEP table follows the hierarchy through every structural operation,
    division keeps both tables consistent, and the invariant
        consistent_procs t b /\ consistent_steps t b
-   is preserved by every single-operation update (consistent_op) and by any history of them
-   (consistent_history).
+   is preserved
+     - by Engine.apply_update's folding of the reports (book_apply: deletions first, then registration) after every
+       single-operation update whose reports do not lie under its deletions (consistent_op, consistent_history);
+     - by the full engine step (engine_apply: ... of what the store still holds) after every single operation
+       (engine_consistent_op), after one update carrying any number of operations (engine_consistent_ops) and
+       along any history of such updates (engine_consistent_history).
+   The pinned order (register, then delete) is refuted on the concrete kit (book_apply_pinned_refuted).
 
    Layout:
-     1. lists, `pset` folds
-     2. the step table after Engine.apply_update (book_apply_steps_eq / book_apply_steps / _nodup)
-     3. a uniform description of what an operation does to the process nodes of the tree
-        (node_change) and of how its reports fit that change (reports_fit); the two generic
-        consistency lemmas consistent_procs_generic / consistent_steps_generic
+     1. lists
+     2. the step table after Engine.apply_update (book_apply_steps / _nodup; book_apply_steps_eq: Struct_proofs)
+     3. a uniform description of what ONE operation does to the process nodes of the tree (node_change) and of
+        how its reports fit that change (reports_fit)
+     3a. a uniform description of what ONE UPDATE (one or several operations) does (upd_fit); the generic
+        consistency lemmas for book_apply (every new node is held) and engine_apply (no such premise)
      4. the description for each operation (the op_change lemmas), the per-operation reports_steps
         and consistent_steps theorems, division
-     5. well-formedness is preserved (apply_op_cwf), consistent_op, consistent_history
-     6. counterexamples on concrete kits *)
+     5. well-formedness is preserved (apply_op_cwf), consistent_op, consistent_history; D: several operations,
+        engine_consistent_ops, engine_history, the two updates the repair is about
+     6. counterexamples on concrete kits
+     7. the record of the pinned order *)
 From Coq Require Import List NArith ZArith Bool Lia.
 From Viv Require Import Base.Assoc Base.Tree Model.Paths Model.Steps Model.Struct Model.StructC
   Proofs.Struct_proofs Proofs.Consistent_proofs Proofs.MoveP_proofs.
 Import ListNotations.
 
 (* ================= 1. lists ================= *)
-Lemma path_eq_dec (p q : list key) : {p = q} + {p <> q}.
-Proof. apply (list_eq_dec N.eq_dec). Qed.
-
-Lemma nodup_fst_functional {A B} (l : list (A * B)) p a b :
-  NoDup (map fst l) -> In (p, a) l -> In (p, b) l -> a = b.
-Proof.
-  induction l as [|[p0 a0] l IH]; cbn [map fst In]; intros Hnd Ha Hb; [destruct Ha|].
-  inversion Hnd as [|? ? Hx Hnd']; subst.
-  destruct Ha as [Ha|Ha]; destruct Hb as [Hb|Hb].
-  - inversion Ha; inversion Hb; subst. reflexivity.
-  - inversion Ha; subst. exfalso. apply Hx. change p with (fst (p, b)). apply in_map. exact Hb.
-  - inversion Hb; subst. exfalso. apply Hx. change p with (fst (p, a)). apply in_map. exact Ha.
-  - apply (IH Hnd' Ha Hb).
-Qed.
-
+(* path_eq_dec, nodup_fst_functional, pset_keys / pset_nodup / pset_in, psetf_fold_nodup / psetf_fold_in: now in
+   Consistent_proofs; nonstep, isstep, entry, psetf, step_adds, book_apply_steps_eq: Struct_proofs *)
 Lemma filter_filter_impl {A} (f g : A -> bool) l :
   (forall x, In x l -> f x = true -> g x = true) -> filter f (filter g l) = filter f l.
 Proof.
@@ -54,161 +49,20 @@ Qed.
 Lemma filter_idem {A} (f : A -> bool) l : filter f (filter f l) = filter f l.
 Proof. apply filter_filter_impl. intros x _ H. exact H. Qed.
 
-(* ---- pset ---- *)
-Lemma kpath_eqb_refl p : kpath_eqb p p = true.
-Proof.
-  induction p as [|x p IH]; [reflexivity|].
-  change (kpath_eqb (x :: p) (x :: p)) with (N.eqb x x && kpath_eqb p p).
-  rewrite N.eqb_refl, IH. reflexivity.
-Qed.
-
-Lemma pset_keys {A} (l : list (list key * A)) p a :
-  map fst (pset l p a) = if in_dec path_eq_dec p (map fst l) then map fst l else map fst l ++ [p].
-Proof.
-  induction l as [|[q b0] r IH]; cbn [pset map fst]; [reflexivity|].
-  destruct (kpath_eqb q p) eqn:E.
-  - apply kpath_eqb_eq in E. subst q. cbn [map fst].
-    destruct (in_dec path_eq_dec p (p :: map fst r)) as [_|Hn]; [reflexivity|].
-    exfalso. apply Hn. left. reflexivity.
-  - cbn [map fst]. rewrite IH.
-    destruct (in_dec path_eq_dec p (map fst r)) as [Hi|Hn];
-      destruct (in_dec path_eq_dec p (q :: map fst r)) as [Hi'|Hn']; try reflexivity.
-    + exfalso. apply Hn'. right. exact Hi.
-    + exfalso. destruct Hi' as [Hq|Hi']; [|exact (Hn Hi')]. subst q. rewrite kpath_eqb_refl in E.
-      discriminate E.
-Qed.
-
-Lemma pset_nodup {A} (l : list (list key * A)) p a : NoDup (map fst l) -> NoDup (map fst (pset l p a)).
-Proof.
-  intros Hnd. rewrite pset_keys. destruct (in_dec path_eq_dec p (map fst l)) as [Hi|Hn]; [exact Hnd|].
-  apply nodup_app; [exact Hnd|constructor; [intros []|constructor]|].
-  intros x Hx [<-|[]]. exact (Hn Hx).
-Qed.
-
-Lemma pset_in {A} (l : list (list key * A)) p a q o : NoDup (map fst l) ->
-  (In (q, o) (pset l p a) <-> (q = p /\ o = a) \/ (q <> p /\ In (q, o) l)).
-Proof.
-  induction l as [|[q0 b0] r IH]; cbn [pset map fst In]; intros Hnd.
-  - split.
-    + intros [H|[]]. inversion H; subst. left. auto.
-    + intros [[-> ->]|[_ []]]. left. reflexivity.
-  - inversion Hnd as [|? ? Hx Hnd']; subst. destruct (kpath_eqb q0 p) eqn:E.
-    + apply kpath_eqb_eq in E. subst q0. cbn [In]. split.
-      * intros [H|H]; [inversion H; subst; left; auto|].
-        right. split; [|right; exact H]. intros ->. apply Hx. change p with (fst (p, o)).
-        apply in_map. exact H.
-      * intros [[-> ->]|[Hne [H|H]]]; [left; reflexivity| |right; exact H].
-        inversion H; subst. congruence.
-    + cbn [In]. rewrite (IH Hnd'). split.
-      * intros [H|[H|[Hne H]]]; [|left; exact H|right; split; [exact Hne|right; exact H]].
-        inversion H; subst. right. split; [|left; reflexivity].
-        intros ->. rewrite kpath_eqb_refl in E. discriminate E.
-      * intros [H|[Hne [H|H]]]; [right; left; exact H|left; exact H|right; right; auto].
-Qed.
-
-(* registering a list of steps: `_add_step_path` assigns, the last entry for a path wins *)
-Definition psetf (acc : list (list key * N)) (pp : list key * pinfo) : list (list key * N) :=
-  pset acc (fst pp) (pi_obj (snd pp)).
-
-Lemma psetf_fold_nodup adds : forall l, NoDup (map fst l) -> NoDup (map fst (fold_left psetf adds l)).
-Proof.
-  induction adds as [|x adds IH]; intros l Hnd; cbn [fold_left]; [exact Hnd|].
-  apply IH. unfold psetf. apply pset_nodup. exact Hnd.
-Qed.
-
-Lemma psetf_fold_in adds : forall l q o, NoDup (map fst l) ->
-  (forall p pi pi', In (p, pi) adds -> In (p, pi') adds -> pi_obj pi = pi_obj pi') ->
-  (In (q, o) (fold_left psetf adds l) <->
-   (In (q, o) l /\ ~ In q (map fst adds)) \/ exists pi, In (q, pi) adds /\ o = pi_obj pi).
-Proof.
-  induction adds as [|[p pi] adds IH]; intros l q o Hnd Hfun; cbn [fold_left].
-  - cbn [map In]. split; [intros H; left; split; [exact H|intros []]|].
-    intros [[H _]|(pi & [] & _)]. exact H.
-  - assert (Hfun' : forall p0 pi0 pi', In (p0, pi0) adds -> In (p0, pi') adds -> pi_obj pi0 = pi_obj pi').
-    { intros p0 pi0 pi' H1 H2. apply (Hfun p0 pi0 pi'); right; assumption. }
-    rewrite (IH (psetf l (p, pi)) q o (pset_nodup l p (pi_obj pi) Hnd) Hfun').
-    unfold psetf at 1. cbn [fst snd]. rewrite (pset_in l p (pi_obj pi) q o Hnd). cbn [map fst In]. split.
-    + intros [[[[-> ->]|[Hne Hin]] Hnk]|(pi0 & Hin & ->)].
-      * right. exists pi. split; [left; reflexivity|reflexivity].
-      * left. split; [exact Hin|]. intros [Hq|Hq]; [congruence|exact (Hnk Hq)].
-      * right. exists pi0. split; [right; exact Hin|reflexivity].
-    + intros [[Hin Hnk]|(pi0 & [Heq|Hin] & ->)].
-      * left. split; [|intros Hq; apply Hnk; right; exact Hq].
-        right. split; [|exact Hin]. intros ->. apply Hnk. left. reflexivity.
-      * inversion Heq; subst p pi0. destruct (in_dec path_eq_dec q (map fst adds)) as [Hi|Hn].
-        -- right. apply in_map_iff in Hi. destruct Hi as ([q' pi1] & Hq' & Hi). cbn [fst] in Hq'. subst q'.
-           exists pi1. split; [exact Hi|]. apply (Hfun q pi pi1); [left; reflexivity|right; exact Hi].
-        -- left. split; [left; auto|exact Hn].
-      * right. exists pi0. split; [exact Hin|reflexivity].
-Qed.
-
 (* ================= 2. the step table after Engine.apply_update ================= *)
-Definition isstep (pp : list key * pinfo) : bool := pi_step (snd pp).
-
-(* what Engine.apply_update files as a step: every Step found among the process updates (pinned Store.move
-   reports moved steps there too; Store.insert reports there the Steps that were listed in the `processes`
-   dict), then every entry of the step updates, whatever is_step() says.  The flow updates only supply the
-   dependencies handed to _add_step_path: they change the graph (and can make it raise), not the table. *)
-Definition step_adds (rp : reports) : list (list key * pinfo) := filter isstep (r_process rp) ++ r_step rp.
-
-Lemma add_step_steps bk p pi deps bk' :
-  add_step bk p pi deps = Ok bk' -> b_steps bk' = pset (b_steps bk) p (pi_obj pi).
-Proof.
-  unfold add_step. intros H.
-  destruct (add_step_path (b_graph bk) (dn p) deps) as [g0|e]; cbn [rbind] in H; [|discriminate H].
-  inversion H; subst. reflexivity.
-Qed.
-
-Lemma sfold_steps (G : res book -> list key * pinfo -> res book) (sel : list key * pinfo -> bool) :
-  (forall x e, G (Err e) x = Err e) ->
-  (forall bk x bk1, G (Ok bk) x = Ok bk1 ->
-     b_steps bk1 = if sel x then psetf (b_steps bk) x else b_steps bk) ->
-  forall l bk b2, fold_left G l (Ok bk) = Ok b2 ->
-    b_steps b2 = fold_left psetf (filter sel l) (b_steps bk).
-Proof.
-  intros Herr HG. induction l as [|x l IH]; intros bk b2 H.
-  - cbn in H. inversion H; subst. reflexivity.
-  - cbn [fold_left] in H. destruct (G (Ok bk) x) as [bk1|e] eqn:E;
-      [|rewrite (fold_err G Herr) in H; discriminate H].
-    rewrite (IH bk1 b2 H), (HG bk x bk1 E). cbn [filter]. destruct (sel x); reflexivity.
-Qed.
-
-(* the table after a report, explicitly and without any premise *)
-Theorem book_apply_steps_eq b rp b' :
-  book_apply b rp = Ok b' ->
-  b_steps b' = fold_left pdrop (r_deletions rp) (fold_left psetf (step_adds rp) (b_steps b)).
-Proof.
-  unfold book_apply. intros H.
-  match type of H with rbind ?X _ = _ => destruct X as [b2|?] eqn:E2; cbn [rbind] in H; [|discriminate H] end.
-  match type of H with rbind ?X _ = _ => destruct X as [b3|?] eqn:E3; cbn [rbind] in H; [|discriminate H] end.
-  inversion H as [Hb']; clear H.
-  assert (H2 : b_steps b2 = fold_left psetf (filter isstep (r_process rp)) (b_steps b)).
-  { refine (sfold_steps _ isstep _ _ _ _ _ E2).
-    - reflexivity.
-    - intros bk x bk1 Hg. cbn [rbind] in Hg. unfold isstep. destruct (pi_step (snd x)).
-      + apply add_step_steps in Hg. exact Hg.
-      + inversion Hg; subst. reflexivity. }
-  assert (H3 : b_steps b3 = fold_left psetf (filter (fun _ => true) (r_step rp)) (b_steps b2)).
-  { refine (sfold_steps _ (fun _ => true) _ _ _ _ _ E3).
-    - reflexivity.
-    - intros bk x bk1 Hg. cbn [rbind] in Hg. apply add_step_steps in Hg. exact Hg. }
-  rewrite dfold_steps by reflexivity. rewrite H3, H2. unfold step_adds. rewrite fold_left_app.
-  f_equal. f_equal. clear. induction (r_step rp) as [|x l IH]; [reflexivity|]. cbn [filter]. rewrite IH. reflexivity.
-Qed.
-
-(* which steps are registered: those of the table that are neither overwritten nor deleted, and the reported
-   ones (two reports of one path must agree on the object: then the order does not matter), unless they lie
-   under a deletion of the same report *)
+(* which steps are registered (DELETIONS FIRST, THEN REGISTRATION): those of the table that lie under no reported
+   deletion and are not re-assigned, and the reported ones (two reports of one path must agree on the object:
+   then the order does not matter) -- also one reported under a deleted path *)
 Theorem book_apply_steps b rp b' q o : NoDup (map fst (b_steps b)) ->
   (forall p pi pi', In (p, pi) (step_adds rp) -> In (p, pi') (step_adds rp) -> pi_obj pi = pi_obj pi') ->
   book_apply b rp = Ok b' ->
   (In (q, o) (b_steps b') <->
-   ((In (q, o) (b_steps b) /\ ~ In q (map fst (step_adds rp))) \/
-    exists pi, In (q, pi) (step_adds rp) /\ o = pi_obj pi) /\
-   forall d, In d (r_deletions rp) -> starts_with q d = false).
+   (In (q, o) (b_steps b) /\ (forall d, In d (r_deletions rp) -> starts_with q d = false) /\
+    ~ In q (map fst (step_adds rp))) \/
+   exists pi, In (q, pi) (step_adds rp) /\ o = pi_obj pi).
 Proof.
-  intros Hnd Hfun H. rewrite (book_apply_steps_eq b rp b' H), pdrop_fold_in.
-  rewrite (psetf_fold_in (step_adds rp) (b_steps b) q o Hnd Hfun). reflexivity.
+  intros Hnd Hfun H. rewrite (book_apply_steps_eq b rp b' H).
+  rewrite (psetf_fold_in _ _ q o (nodup_pdrop_fold _ _ Hnd) Hfun), pdrop_fold_in. tauto.
 Qed.
 
 (* the table keeps one entry per path: no premise on the report *)
@@ -216,7 +70,7 @@ Theorem book_apply_steps_nodup b rp b' : NoDup (map fst (b_steps b)) ->
   book_apply b rp = Ok b' -> NoDup (map fst (b_steps b')).
 Proof.
   intros Hnd H. rewrite (book_apply_steps_eq b rp b' H).
-  apply nodup_pdrop_fold. apply psetf_fold_nodup. exact Hnd.
+  apply psetf_fold_nodup, nodup_pdrop_fold. exact Hnd.
 Qed.
 
 (* ================= 3. what an operation does to the process nodes; how its reports fit ================= *)
@@ -231,8 +85,9 @@ Proof.
     left. reflexivity.
 Qed.
 
-(* the process nodes (processes and steps alike) of t' are those of t and the new ones, outside the deleted
-   subtrees (Engine.apply_update too registers first and deletes last) *)
+(* ONE OPERATION: the process nodes (processes and steps alike) of t' are those of t and the new ones, outside
+   the deleted subtrees.  (This describes the store operation only; how Engine.apply_update follows it -- deletions
+   first, then only what is still held -- is section 3a.) *)
 Definition node_change (t t' : cnode) (dels : list (list key)) (news : list (list key * pinfo)) : Prop :=
   forall q pi, In (q, pi) (proc_nodes t' []) <->
     (In (q, pi) (proc_nodes t []) \/ In (q, pi) news) /\ forall d, In d dels -> starts_with q d = false.
@@ -245,60 +100,309 @@ Definition reports_fit (t : cnode) (rp : reports) (news : list (list key * pinfo
   filter nonstep (r_process rp) = filter nonstep news /\
   (forall q pi, In (q, pi) (step_adds rp) <-> In (q, pi) news /\ pi_step pi = true).
 
-Lemma in_filter_nonstep l q pi : In (q, pi) (filter nonstep l) <-> In (q, pi) l /\ pi_step pi = false.
-Proof. rewrite filter_In. unfold nonstep. cbn [snd]. rewrite negb_true_iff. reflexivity. Qed.
+(* ================= 3a. one whole update (one operation or several): summary, and the two tables ================= *)
+Definition clear_of (q : list key) (ds : list (list key)) : Prop := forall d, In d ds -> starts_with q d = false.
 
-Lemma in_filter_isstep l q pi : In (q, pi) (filter isstep l) <-> In (q, pi) l /\ pi_step pi = true.
-Proof. rewrite filter_In. unfold isstep. cbn [snd]. reflexivity. Qed.
+(* how the process nodes of the hierarchy changed over one update that reported rp, `news` being every node the
+   update put somewhere (whether or not it is still there at the end):
+   - a node of t' is a node of t under no reported deletion, or one of the new ones;
+   - the nodes of t under no reported deletion are still there, and so are the new ones under no deletion;
+   - a path at which a new node was put held no node of t, unless a deletion covered it;
+   - the non-step process updates are the new non-step nodes, what the engine files as steps the new Steps *)
+Definition upd_fit (t t' : cnode) (rp : reports) (news : list (list key * pinfo)) : Prop :=
+  (forall q pi, In (q, pi) (proc_nodes t' []) ->
+     (In (q, pi) (proc_nodes t []) /\ clear_of q (r_deletions rp)) \/ In (q, pi) news) /\
+  (forall q pi, In (q, pi) (proc_nodes t []) -> clear_of q (r_deletions rp) -> In (q, pi) (proc_nodes t' [])) /\
+  (forall q pi, In (q, pi) news -> clear_of q (r_deletions rp) -> In (q, pi) (proc_nodes t' [])) /\
+  (forall q pi pi0, In (q, pi) news -> In (q, pi0) (proc_nodes t []) -> ~ clear_of q (r_deletions rp)) /\
+  (forall q pi, pi_step pi = false -> (In (q, pi) (r_process rp) <-> In (q, pi) news)) /\
+  (forall q pi, In (q, pi) (step_adds rp) <-> In (q, pi) news /\ pi_step pi = true).
 
-Lemma consistent_procs_generic t t' b b' rp news :
-  consistent_procs t b -> node_change t t' (r_deletions rp) news -> reports_fit t rp news ->
-  book_apply b rp = Ok b' -> consistent_procs t' b'.
+(* every new node is in the final hierarchy, up to the record: same object, same is_step() *)
+Definition news_held (t' : cnode) (news : list (list key * pinfo)) : Prop :=
+  forall q pi, In (q, pi) news ->
+    exists pi', In (q, pi') (proc_nodes t' []) /\ pi_obj pi' = pi_obj pi /\ pi_step pi' = pi_step pi.
+
+(* two reports that put the same object at the same path agree on is_step() (an object has one class) *)
+Definition news_coherent (news : list (list key * pinfo)) : Prop :=
+  forall q pi pi', In (q, pi) news -> In (q, pi') news -> pi_obj pi = pi_obj pi' -> pi_step pi = pi_step pi'.
+Definition reports_coherent (rp : reports) : Prop := news_coherent (r_process rp ++ r_step rp).
+
+(* no reported process / step lies under a deletion of the same report *)
+Definition reports_clear (rp : reports) : Prop :=
+  forall q pi, In (q, pi) (r_process rp ++ r_step rp) -> clear_of q (r_deletions rp).
+
+Lemma upd_fit_reported t t' rp news q pi : upd_fit t t' rp news ->
+  In (q, pi) news -> In (q, pi) (r_process rp ++ r_step rp).
 Proof.
-  intros [Hss Hnd] Hch (Hnn & Hfresh & Hpr & _) Hb.
-  assert (Hin_r : forall p pi, In (p, pi) (r_process rp) -> pi_step pi = false -> In (p, pi) news).
-  { intros p pi Hin Hs.
-    assert (H : In (p, pi) (filter nonstep (r_process rp))) by (apply in_filter_nonstep; auto).
-    rewrite Hpr in H. apply in_filter_nonstep in H. destruct H as [H _]. exact H. }
-  assert (H3 : NoDup (map fst (filter (fun pp => negb (pi_step (snd pp))) (r_process rp)))).
-  { change (NoDup (map fst (filter nonstep (r_process rp)))). rewrite Hpr. apply nodup_map_filter. exact Hnn. }
-  assert (H4 : forall p pi, In (p, pi) (r_process rp) -> pi_step pi = false -> ~ In p (map fst (b_procs b))).
-  { intros p pi Hin Hs Hin'. apply in_map_iff in Hin'. destruct Hin' as ([p' o] & Heq & Hin').
-    cbn [fst] in Heq. subst p'. apply Hss in Hin'. apply in_proc_paths in Hin'.
-    destruct Hin' as (pi0 & Hin0 & _). apply (Hfresh p pi (Hin_r p pi Hin Hs) pi0 Hin0). }
-  split; [|apply (book_apply_nodup b rp b' Hnd H3 H4 Hb)].
-  intros [q o]. rewrite (book_apply_procs_eq b rp b' H3 H4 Hb), Hpr.
-  rewrite pdrop_fold_in, in_app_iff, in_map_iff, in_proc_paths. split.
-  - intros [[Hin|([p pi] & Heq & Hin)] Hd].
-    + apply Hss in Hin. apply in_proc_paths in Hin. destruct Hin as (pi & Hin & Hs & Ho).
-      exists pi. split; [|auto]. apply Hch. auto.
-    + unfold entry in Heq. cbn [fst snd] in Heq. inversion Heq; subst p o.
-      apply in_filter_nonstep in Hin. destruct Hin as [Hin Hs]. exists pi. split; [|auto]. apply Hch. auto.
-  - intros (pi & Hin & Hs & Ho). apply Hch in Hin. destruct Hin as [[Hin|Hin] Hd]; (split; [|exact Hd]).
-    + left. apply Hss. apply in_proc_paths. exists pi. auto.
-    + right. exists (q, pi). split; [unfold entry; cbn [fst snd]; rewrite Ho; reflexivity|].
-      apply in_filter_nonstep. auto.
+  intros (_ & _ & _ & _ & U5 & U6) Hin. apply in_or_app. destruct (pi_step pi) eqn:Es.
+  - assert (H : In (q, pi) (step_adds rp)) by (apply U6; auto).
+    apply in_step_adds in H. destruct H as [[H _]|H]; auto.
+  - left. apply U5; assumption.
 Qed.
 
-Lemma consistent_steps_generic t t' b b' rp news :
-  consistent_steps t b -> node_change t t' (r_deletions rp) news -> reports_fit t rp news ->
+Lemma nodup_news_coherent news : NoDup (map fst news) -> news_coherent news.
+Proof. intros Hnd q pi pi' H1 H2 _. rewrite (nodup_fst_functional news q pi pi' Hnd H1 H2). reflexivity. Qed.
+
+Lemma reports_news_coherent t t' rp news : upd_fit t t' rp news -> reports_coherent rp -> news_coherent news.
+Proof.
+  intros Hfit Hco q pi pi' H1 H2 Ho.
+  apply (Hco q pi pi' (upd_fit_reported _ _ _ _ _ _ Hfit H1) (upd_fit_reported _ _ _ _ _ _ Hfit H2) Ho).
+Qed.
+
+(* coherence is decidable: for concrete reports it is checked by computation *)
+Definition coherentb (l : list (list key * pinfo)) : bool :=
+  forallb (fun x => forallb (fun y =>
+     implb (kpath_eqb (fst x) (fst y) && N.eqb (pi_obj (snd x)) (pi_obj (snd y)))
+           (Bool.eqb (pi_step (snd x)) (pi_step (snd y)))) l) l.
+
+Lemma coherentb_sound l : coherentb l = true -> news_coherent l.
+Proof.
+  unfold coherentb. intros H q pi pi' H1 H2 Ho. rewrite forallb_forall in H.
+  specialize (H (q, pi) H1). rewrite forallb_forall in H. specialize (H (q, pi') H2). cbn [fst snd] in H.
+  rewrite kpath_eqb_refl, Ho, N.eqb_refl in H. cbn [andb implb] in H. apply eqb_prop in H. exact H.
+Qed.
+
+Lemma reports_coherentb_sound rp : coherentb (r_process rp ++ r_step rp) = true -> reports_coherent rp.
+Proof. apply coherentb_sound. Qed.
+
+Lemma news_held_clear t t' rp news : upd_fit t t' rp news -> reports_clear rp -> news_held t' news.
+Proof.
+  intros Hfit Hcl q pi Hin. exists pi. split; [|auto].
+  pose proof (upd_fit_reported _ _ _ _ _ _ Hfit Hin) as Hr.
+  destruct Hfit as (_ & _ & U3 & _). apply (U3 q pi Hin). apply (Hcl q pi Hr).
+Qed.
+
+(* ---- Engine.apply_update's folding (book_apply) after such an update, when every new node is held ---- *)
+Definition news_functional (news : list (list key * pinfo)) : Prop :=
+  forall p pi pi', In (p, pi) news -> In (p, pi') news -> pi_obj pi = pi_obj pi'.
+
+Lemma news_held_functional t' news : cwf t' -> news_held t' news -> news_functional news.
+Proof.
+  intros Hw' Hheld p pi pi' H1 H2.
+  destruct (Hheld p pi H1) as (x1 & Hx1 & Ho1 & _). destruct (Hheld p pi' H2) as (x2 & Hx2 & Ho2 & _).
+  rewrite <- Ho1, <- Ho2.
+  rewrite (nodup_fst_functional _ p x1 x2 (proc_nodes_nodup t' Hw' []) Hx1 Hx2). reflexivity.
+Qed.
+
+Lemma book_consistent_procs_generic t t' b b' rp news :
+  consistent_procs t b -> upd_fit t t' rp news -> news_held t' news -> news_functional news ->
+  book_apply b rp = Ok b' -> consistent_procs t' b'.
+Proof.
+  intros [Hss Hnd] (U1 & U2 & U3 & U4 & U5 & U6) Hheld Hnf Hb.
+  split; [|apply (book_apply_nodup b rp b' Hnd Hb)].
+  assert (Hfun : forall p pi pi', In (p, pi) (filter nonstep (r_process rp)) ->
+                   In (p, pi') (filter nonstep (r_process rp)) -> pi_obj pi = pi_obj pi').
+  { intros p pi pi' H1 H2. apply in_filter_nonstep in H1. apply in_filter_nonstep in H2.
+    destruct H1 as [H1 Hs1]. destruct H2 as [H2 Hs2]. apply (U5 _ _ Hs1) in H1. apply (U5 _ _ Hs2) in H2.
+    apply (Hnf p pi pi' H1 H2). }
+  intros [q o]. rewrite (book_apply_procs b rp b' q o Hnd Hfun Hb), in_proc_paths. split.
+  - intros [(Hin & Hcl & _)|(pi & Hin & Hs & Ho)].
+    + apply Hss in Hin. apply in_proc_paths in Hin. destruct Hin as (pi & Hin & Hs & Ho).
+      exists pi. split; [apply (U2 q pi Hin Hcl)|auto].
+    + apply (U5 _ _ Hs) in Hin. destruct (Hheld q pi Hin) as (pi' & Hin' & Hobj & Hst).
+      exists pi'. split; [exact Hin'|]. split; [rewrite Hst; exact Hs|rewrite Hobj; exact Ho].
+  - intros (pi & Hin & Hs & Ho). destruct (U1 q pi Hin) as [[Hin0 Hcl]|Hn].
+    + left. split; [apply Hss; apply in_proc_paths; exists pi; auto|]. split; [exact Hcl|].
+      intros Hk. apply in_map_iff in Hk. destruct Hk as ([q' pi1] & Heq & Hk). cbn [fst] in Heq. subst q'.
+      apply in_filter_nonstep in Hk. destruct Hk as [Hk Hs1]. apply (U5 _ _ Hs1) in Hk.
+      apply (U4 q pi1 pi Hk Hin0 Hcl).
+    + right. exists pi. split; [apply (U5 _ _ Hs); exact Hn|auto].
+Qed.
+
+Lemma book_consistent_steps_generic t t' b b' rp news :
+  consistent_steps t b -> upd_fit t t' rp news -> news_held t' news -> news_functional news ->
   book_apply b rp = Ok b' -> consistent_steps t' b'.
 Proof.
-  intros [Hss Hnd] Hch (Hnn & Hfresh & _ & Hst) Hb.
+  intros [Hss Hnd] (U1 & U2 & U3 & U4 & U5 & U6) Hheld Hnf Hb.
   split; [|apply (book_apply_steps_nodup b rp b' Hnd Hb)].
   assert (Hfun : forall p pi pi', In (p, pi) (step_adds rp) -> In (p, pi') (step_adds rp) -> pi_obj pi = pi_obj pi').
-  { intros p pi pi' H1 H2. apply Hst in H1. apply Hst in H2. destruct H1 as [H1 _]. destruct H2 as [H2 _].
-    rewrite (nodup_fst_functional news p pi pi' Hnn H1 H2). reflexivity. }
+  { intros p pi pi' H1 H2. apply U6 in H1. apply U6 in H2. destruct H1 as [H1 _]. destruct H2 as [H2 _].
+    apply (Hnf p pi pi' H1 H2). }
   intros [q o]. rewrite (book_apply_steps b rp b' q o Hnd Hfun Hb), in_step_paths. split.
-  - intros [[[Hin Hnk]|(pi & Hin & Ho)] Hd].
+  - intros [(Hin & Hcl & _)|(pi & Hin & Ho)].
     + apply Hss in Hin. apply in_step_paths in Hin. destruct Hin as (pi & Hin & Hs & Ho).
-      exists pi. split; [|auto]. apply Hch. auto.
-    + apply Hst in Hin. destruct Hin as [Hin Hs]. exists pi. split; [|auto]. apply Hch. auto.
-  - intros (pi & Hin & Hs & Ho). apply Hch in Hin. destruct Hin as [[Hin|Hin] Hd]; (split; [|exact Hd]).
-    + left. split; [apply Hss; apply in_step_paths; exists pi; auto|].
-      intros Hk. apply in_map_iff in Hk. destruct Hk as ([q' pi1] & Hq' & Hk). cbn [fst] in Hq'. subst q'.
-      apply Hst in Hk. destruct Hk as [Hk _]. apply (Hfresh q pi1 Hk pi Hin).
-    + right. exists pi. split; [|exact Ho]. apply Hst. auto.
+      exists pi. split; [apply (U2 q pi Hin Hcl)|auto].
+    + apply U6 in Hin. destruct Hin as [Hin Hs]. destruct (Hheld q pi Hin) as (pi' & Hin' & Hobj & Hst).
+      exists pi'. split; [exact Hin'|]. split; [rewrite Hst; exact Hs|rewrite Hobj; exact Ho].
+  - intros (pi & Hin & Hs & Ho). destruct (U1 q pi Hin) as [[Hin0 Hcl]|Hn].
+    + left. split; [apply Hss; apply in_step_paths; exists pi; auto|]. split; [exact Hcl|].
+      intros Hk. apply in_map_iff in Hk. destruct Hk as ([q' pi1] & Heq & Hk). cbn [fst] in Heq. subst q'.
+      apply U6 in Hk. destruct Hk as [Hk _]. apply (U4 q pi1 pi Hk Hin0 Hcl).
+    + right. exists pi. split; [apply U6; auto|exact Ho].
+Qed.
+
+(* ---- the full engine step: what the store still holds ---- *)
+Definition heldf (t' : cnode) (rp : reports) (pp : list key * pinfo) : bool :=
+  match r_deletions rp with [] => true | _ :: _ => held_proc t' pp end.
+
+Lemma heldf_true t' rp pp : heldf t' rp pp = true <-> r_deletions rp = [] \/ held_proc t' pp = true.
+Proof.
+  unfold heldf. destruct (r_deletions rp) as [|d ds].
+  - split; auto.
+  - split; [auto|intros [H|H]; [discriminate H|exact H]].
+Qed.
+
+Lemma held_in_tree t' q pi : cwf t' -> In (q, pi) (proc_nodes t' []) -> held_proc t' (q, pi) = true.
+Proof.
+  intros Hw Hin. apply (proc_nodes_cget t' [] q pi Hw) in Hin. destruct Hin as (u & Hc).
+  unfold held_proc. cbn [fst snd]. rewrite Hc. apply N.eqb_refl.
+Qed.
+
+Lemma held_proc_inv t' q pi : cwf t' -> held_proc t' (q, pi) = true ->
+  exists pi', In (q, pi') (proc_nodes t' []) /\ pi_obj pi' = pi_obj pi.
+Proof.
+  intros Hw H. unfold held_proc in H. cbn [fst snd] in H.
+  destruct (cget t' q) as [[u v d|u pi'|u g c]|] eqn:E; try discriminate H.
+  apply N.eqb_eq in H. exists pi'. split; [|exact H].
+  apply (proc_nodes_cget t' [] q pi' Hw). exists u. exact E.
+Qed.
+
+(* the held part of an update fits, and all of it is in the final hierarchy *)
+Lemma upd_fit_held t t' rp news : cwf t' -> upd_fit t t' rp news -> news_coherent news ->
+  upd_fit t t' (held_reports t' rp) (filter (heldf t' rp) news) /\ news_held t' (filter (heldf t' rp) news).
+Proof.
+  intros Hw' (U1 & U2 & U3 & U4 & U5 & U6) Hco. split.
+  - unfold upd_fit. rewrite held_deletions. split; [|split; [|split; [|split; [|split]]]].
+    + intros q pi Hin. destruct (U1 q pi Hin) as [H|H]; [left; exact H|right].
+      apply filter_In. split; [exact H|]. apply heldf_true. right. apply (held_in_tree t' q pi Hw' Hin).
+    + exact U2.
+    + intros q pi Hin. apply filter_In in Hin. destruct Hin as [Hin _]. apply (U3 q pi Hin).
+    + intros q pi pi0 Hin. apply filter_In in Hin. destruct Hin as [Hin _]. apply (U4 q pi pi0 Hin).
+    + intros q pi Hs. rewrite held_process_in, filter_In, heldf_true, (U5 q pi Hs). reflexivity.
+    + intros q pi. rewrite in_step_adds, held_process_in, held_step_in, filter_In, heldf_true.
+      pose proof (U6 q pi) as H6. rewrite in_step_adds in H6. tauto.
+  - intros q pi Hin. apply filter_In in Hin. destruct Hin as [Hin Hh]. apply heldf_true in Hh.
+    destruct Hh as [Hnil|Hh].
+    + exists pi. split; [|auto]. apply (U3 q pi Hin). rewrite Hnil. intros d [].
+    + destruct (held_proc_inv t' q pi Hw' Hh) as (pi' & Hin' & Ho). exists pi'. split; [exact Hin'|]. split; [exact Ho|].
+      destruct (U1 q pi' Hin') as [[Hin0 Hcl]|Hn].
+      * exfalso. apply (U4 q pi pi' Hin Hin0 Hcl).
+      * apply (Hco q pi' pi Hn Hin Ho).
+Qed.
+
+Lemma engine_consistent_procs_generic t t' b b' rp news : cwf t' ->
+  consistent_procs t b -> upd_fit t t' rp news -> news_coherent news ->
+  engine_apply b t' rp = Ok b' -> consistent_procs t' b'.
+Proof.
+  intros Hw' Hc Hfit Hco Hb. destruct (upd_fit_held t t' rp news Hw' Hfit Hco) as [Hfit' Hheld].
+  apply (book_consistent_procs_generic t t' b b' _ _ Hc Hfit' Hheld (news_held_functional _ _ Hw' Hheld) Hb).
+Qed.
+
+Lemma engine_consistent_steps_generic t t' b b' rp news : cwf t' ->
+  consistent_steps t b -> upd_fit t t' rp news -> news_coherent news ->
+  engine_apply b t' rp = Ok b' -> consistent_steps t' b'.
+Proof.
+  intros Hw' Hc Hfit Hco Hb. destruct (upd_fit_held t t' rp news Hw' Hfit Hco) as [Hfit' Hheld].
+  apply (book_consistent_steps_generic t t' b b' _ _ Hc Hfit' Hheld (news_held_functional _ _ Hw' Hheld) Hb).
+Qed.
+
+(* ---- one operation is such an update; one more operation keeps it one ---- *)
+Lemma op_upd_fit t t' rp news : node_change t t' (r_deletions rp) news -> reports_fit t rp news ->
+  upd_fit t t' rp news /\ news_coherent news.
+Proof.
+  intros Hch (Hnn & Hfresh & Hpr & Hst). split; [|apply (nodup_news_coherent news Hnn)].
+  split; [|split; [|split; [|split; [|split]]]].
+  - intros q pi Hin. apply Hch in Hin. destruct Hin as [[Hin|Hin] Hcl]; [left; auto|right; exact Hin].
+  - intros q pi Hin Hcl. apply Hch. auto.
+  - intros q pi Hin Hcl. apply Hch. auto.
+  - intros q pi pi0 Hin Hin0 _. apply (Hfresh q pi Hin pi0 Hin0).
+  - intros q pi Hs. split; intros Hin.
+    + assert (H : In (q, pi) (filter nonstep (r_process rp))) by (apply in_filter_nonstep; auto).
+      rewrite Hpr in H. apply in_filter_nonstep in H. destruct H as [H _]. exact H.
+    + assert (H : In (q, pi) (filter nonstep news)) by (apply in_filter_nonstep; auto).
+      rewrite <- Hpr in H. apply in_filter_nonstep in H. destruct H as [H _]. exact H.
+  - exact Hst.
+Qed.
+
+Lemma upd_fit_refl t : upd_fit t t no_reports [].
+Proof.
+  split; [|split; [|split; [|split; [|split]]]]; cbn.
+  - intros q pi Hin. left. split; [exact Hin|intros d []].
+  - intros q pi Hin _. exact Hin.
+  - intros q pi [].
+  - intros q pi pi0 [].
+  - intros q pi _. reflexivity.
+  - intros q pi. split; [intros []|intros [[] _]].
+Qed.
+
+Lemma clear_of_app q a b : clear_of q (a ++ b) <-> clear_of q a /\ clear_of q b.
+Proof.
+  unfold clear_of. split.
+  - intros H. split; intros d Hd; apply H; apply in_or_app; auto.
+  - intros [Ha Hb] d Hd. apply in_app_or in Hd. destruct Hd as [Hd|Hd]; auto.
+Qed.
+
+Lemma upd_fit_step t t1 t2 rp1 n1 rp2 n2 :
+  upd_fit t t1 rp1 n1 -> node_change t1 t2 (r_deletions rp2) n2 -> reports_fit t1 rp2 n2 ->
+  upd_fit t t2 (rapp rp1 rp2) (n1 ++ n2).
+Proof.
+  intros (U1 & U2 & U3 & U4 & U5 & U6) Hch (Hnn & Hfresh & Hpr & Hst).
+  unfold upd_fit. cbn [rapp r_deletions r_process]. split; [|split; [|split; [|split; [|split]]]].
+  - intros q pi Hin. apply Hch in Hin. destruct Hin as [[Hin|Hin] Hcl2].
+    + destruct (U1 q pi Hin) as [[Hin0 Hcl1]|Hn].
+      * left. split; [exact Hin0|]. apply clear_of_app. auto.
+      * right. apply in_or_app. auto.
+    + right. apply in_or_app. auto.
+  - intros q pi Hin Hcl. apply clear_of_app in Hcl. destruct Hcl as [Hcl1 Hcl2]. apply Hch. split; [|exact Hcl2].
+    left. apply (U2 q pi Hin Hcl1).
+  - intros q pi Hin Hcl. apply clear_of_app in Hcl. destruct Hcl as [Hcl1 Hcl2]. apply Hch. split; [|exact Hcl2].
+    apply in_app_or in Hin. destruct Hin as [Hin|Hin]; [left; apply (U3 q pi Hin Hcl1)|right; exact Hin].
+  - intros q pi pi0 Hin Hin0 Hcl. apply clear_of_app in Hcl. destruct Hcl as [Hcl1 Hcl2].
+    apply in_app_or in Hin. destruct Hin as [Hin|Hin].
+    + apply (U4 q pi pi0 Hin Hin0 Hcl1).
+    + apply (Hfresh q pi Hin pi0). apply (U2 q pi0 Hin0 Hcl1).
+  - intros q pi Hs. rewrite !in_app_iff, (U5 q pi Hs).
+    assert (H2 : In (q, pi) (r_process rp2) <-> In (q, pi) n2).
+    { split; intros Hin.
+      - assert (H : In (q, pi) (filter nonstep (r_process rp2))) by (apply in_filter_nonstep; auto).
+        rewrite Hpr in H. apply in_filter_nonstep in H. destruct H as [H _]. exact H.
+      - assert (H : In (q, pi) (filter nonstep n2)) by (apply in_filter_nonstep; auto).
+        rewrite <- Hpr in H. apply in_filter_nonstep in H. destruct H as [H _]. exact H. }
+    rewrite H2. reflexivity.
+  - intros q pi. rewrite in_step_adds. cbn [rapp r_process r_step]. rewrite !in_app_iff.
+    pose proof (U6 q pi) as H1. pose proof (Hst q pi) as H2. rewrite in_step_adds in H1, H2. tauto.
+Qed.
+
+(* no reported path under a reported deletion: Engine.apply_update's folding alone does it *)
+Lemma book_consistent_procs_op t t' b b' rp news : consistent_procs t b ->
+  node_change t t' (r_deletions rp) news -> reports_fit t rp news -> reports_clear rp ->
+  book_apply b rp = Ok b' -> consistent_procs t' b'.
+Proof.
+  intros Hc Hch Hfit Hcl Hb. destruct (op_upd_fit t t' rp news Hch Hfit) as [Hu _].
+  apply (book_consistent_procs_generic t t' b b' rp news Hc Hu (news_held_clear _ _ _ _ Hu Hcl)
+           (nodup_reports_functional news (proj1 Hfit)) Hb).
+Qed.
+
+Lemma book_consistent_steps_op t t' b b' rp news : consistent_steps t b ->
+  node_change t t' (r_deletions rp) news -> reports_fit t rp news -> reports_clear rp ->
+  book_apply b rp = Ok b' -> consistent_steps t' b'.
+Proof.
+  intros Hc Hch Hfit Hcl Hb. destruct (op_upd_fit t t' rp news Hch Hfit) as [Hu _].
+  apply (book_consistent_steps_generic t t' b b' rp news Hc Hu (news_held_clear _ _ _ _ Hu Hcl)
+           (nodup_reports_functional news (proj1 Hfit)) Hb).
+Qed.
+
+Lemma reports_clear_nil rp : r_process rp = [] -> r_step rp = [] -> reports_clear rp.
+Proof. intros Hp Hs q pi Hin. rewrite Hp, Hs in Hin. destruct Hin. Qed.
+
+Lemma reports_clear_nodel rp : r_deletions rp = [] -> reports_clear rp.
+Proof. intros Hd q pi _. rewrite Hd. intros d []. Qed.
+
+Lemma engine_consistent_procs_op t t' b b' rp news : cwf t' -> consistent_procs t b ->
+  node_change t t' (r_deletions rp) news -> reports_fit t rp news ->
+  engine_apply b t' rp = Ok b' -> consistent_procs t' b'.
+Proof.
+  intros Hw' Hc Hch Hfit Hb. destruct (op_upd_fit t t' rp news Hch Hfit) as [Hu Hco].
+  apply (engine_consistent_procs_generic t t' b b' rp news Hw' Hc Hu Hco Hb).
+Qed.
+
+Lemma engine_consistent_steps_op t t' b b' rp news : cwf t' -> consistent_steps t b ->
+  node_change t t' (r_deletions rp) news -> reports_fit t rp news ->
+  engine_apply b t' rp = Ok b' -> consistent_steps t' b'.
+Proof.
+  intros Hw' Hc Hch Hfit Hb. destruct (op_upd_fit t t' rp news Hch Hfit) as [Hu Hco].
+  apply (engine_consistent_steps_generic t t' b b' rp news Hw' Hc Hu Hco Hb).
 Qed.
 
 (* the same, read as "the reports describe exactly how the two sets changed" *)
@@ -776,10 +880,11 @@ Proof.
   split; [discriminate|]. auto 10.
 Qed.
 
-(* NO premise on the target: when the target lies inside the moved subtree the attached copy is deleted with
-   the source (it is deleted LAST here) -- and the engine too registers the reported processes and steps
-   first and drops everything under the reported deletion last.  So movep_reports needs
-   `starts_with (tgt ++ src) (here ++ src) = false`, the consistency of the tables does not. *)
+(* NO premise on the target for this description of the STORE operation: when the target lies inside the moved
+   subtree the attached copy is deleted with the source (it is deleted LAST here), which node_change expresses.
+   The engine's folding alone (deletions first, then registration) would register the reported nodes although they
+   are gone: consistent_movep / consistent_steps_movep need the premise; the full engine step registers only what the
+   store still holds and needs none (consistent_movep_any, consistent_steps_movep_any). *)
 Lemma op_change_movep vr t here src tgt uid t' rp uid' : cwf t ->
   apply_opv vr t here (OpMoveP D src tgt) uid = Ok (t', rp, uid') ->
   exists news, node_change t t' (r_deletions rp) news /\ reports_fit t rp news.
@@ -1105,7 +1210,7 @@ Proof.
       rewrite Hs in Hin. apply in_filter_isstep in Hin. destruct Hin as [Hin _]. apply (Hnu node q pi Hin).
 Qed.
 
-(* the general form, without the premise: registered first, deleted last *)
+(* the general form, without the premise: the store attaches first and deletes the source last *)
 Theorem movep_reports_steps_gen vr t here src tgt uid t' rp uid' q o : cwf t ->
   apply_opv vr t here (OpMoveP D src tgt) uid = Ok (t', rp, uid') ->
   (In (q, o) (step_paths t') <->
@@ -1134,13 +1239,43 @@ Proof.
   - intros [Hor Hsw]. split; [exact Hor|]. intros d0 [<-|[]]. exact Hsw.
 Qed.
 
-(* ---- consistency of the step table is preserved ---- *)
+(* ---- no reported path lies under the reported deletion: move by key (from success), nested move (premise) ---- *)
+Lemma reports_clear_move vr t here src tgt uid t' rp uid' : cwf t ->
+  apply_opv vr t here (OpMove D src tgt) uid = Ok (t', rp, uid') -> reports_clear rp.
+Proof.
+  intros Hw H. destruct (move_target_not_inside _ _ _ _ _ _ _ _ _ Hw H) as [Hs1 Hs2].
+  apply move_inv3 in H. destruct H as (u & g & c & node & t1 & _ & _ & _ & _ & _ & Hdel & Hp & Hs).
+  intros q pi Hin. rewrite Hdel. intros d0 [<-|[]].
+  assert (Hn : In (q, pi) (proc_nodes node (tgt ++ [src]))).
+  { apply in_app_or in Hin. destruct Hin as [Hin|Hin].
+    - rewrite Hp in Hin. destruct (v_fix_move vr); [apply filter_In in Hin; destruct Hin as [Hin _]|]; exact Hin.
+    - rewrite Hs in Hin. apply filter_In in Hin. destruct Hin as [Hin _]. exact Hin. }
+  apply proc_nodes_prefix in Hn. destruct Hn as (r' & ->).
+  destruct (starts_with ((tgt ++ [src]) ++ r') (here ++ [src])) eqn:E; [|reflexivity].
+  apply sw_ext in E. destruct E as [E|E]; congruence.
+Qed.
+
+Lemma reports_clear_movep vr t here src tgt uid t' rp uid' :
+  starts_with (tgt ++ src) (here ++ src) = false ->
+  apply_opv vr t here (OpMoveP D src tgt) uid = Ok (t', rp, uid') -> reports_clear rp.
+Proof.
+  intros Hs1 H.
+  pose proof (fun n p pi => reported_not_under_source mk_child D build copy_procs vr t here src tgt uid t' rp uid' n p pi Hs1 H) as Hnu.
+  apply movep_inv3 in H. destruct H as (node & t0 & t1 & _ & _ & _ & _ & _ & _ & Hdel & Hp & Hs).
+  intros q pi Hin. rewrite Hdel. intros d0 [<-|[]]. apply (Hnu node q pi).
+  apply in_app_or in Hin. destruct Hin as [Hin|Hin].
+  - rewrite Hp in Hin. apply filter_In in Hin. destruct Hin as [Hin _]. exact Hin.
+  - rewrite Hs in Hin. apply filter_In in Hin. destruct Hin as [Hin _]. exact Hin.
+Qed.
+
+(* ---- consistency of the step table is preserved by Engine.apply_update's folding (book_apply) ---- *)
 Theorem consistent_steps_delete vr t here k uid t' rp uid' b b' : cwf t -> consistent_steps t b ->
   apply_opv vr t here (OpDelete D k) uid = Ok (t', rp, uid') ->
   book_apply b rp = Ok b' -> consistent_steps t' b'.
 Proof.
   intros Hw Hc H Hb. destruct (op_change_delete _ _ _ _ _ _ _ _ Hw H) as [Hch Hfit].
-  apply (consistent_steps_generic t t' b b' rp [] Hc Hch Hfit Hb).
+  apply delete_inv3 in H. destruct H as (_ & _ & Hp & Hs).
+  apply (book_consistent_steps_op t t' b b' rp [] Hc Hch Hfit (reports_clear_nil rp Hp Hs) Hb).
 Qed.
 
 (* premises: the key is new; kit: build_cwf, build_steps (listed under `steps` => is a Step) *)
@@ -1150,7 +1285,9 @@ Theorem consistent_steps_generate vr t here k d init uid t' rp uid' b b' : cwf t
   book_apply b rp = Ok b' -> consistent_steps t' b'.
 Proof.
   intros Hw Hc Hnone H Hb. destruct (op_change_generate _ _ _ _ _ _ _ _ _ _ Hw Hnone H) as (news & Hch & Hfit).
-  apply (consistent_steps_generic t t' b b' rp news Hc Hch Hfit Hb).
+  apply generate_inv3 in H. destruct H as (r & _ & _ & _ & Hrp).
+  assert (Hdel : r_deletions rp = []) by (rewrite Hrp; reflexivity).
+  apply (book_consistent_steps_op t t' b b' rp news Hc Hch Hfit (reports_clear_nodel rp Hdel) Hb).
 Qed.
 
 (* no premise besides success, and for either variant of Store.move: that the target is not inside the moved
@@ -1160,7 +1297,7 @@ Theorem consistent_steps_move vr t here src tgt uid t' rp uid' b b' : cwf t -> c
   book_apply b rp = Ok b' -> consistent_steps t' b'.
 Proof.
   intros Hw Hc H Hb. destruct (op_change_move _ _ _ _ _ _ _ _ _ Hw H) as (news & Hch & Hfit).
-  apply (consistent_steps_generic t t' b b' rp news Hc Hch Hfit Hb).
+  apply (book_consistent_steps_op t t' b b' rp news Hc Hch Hfit (reports_clear_move _ _ _ _ _ _ _ _ _ Hw H) Hb).
 Qed.
 
 Theorem consistent_move_any vr t here src tgt uid t' rp uid' b b' : cwf t -> consistent_procs t b ->
@@ -1168,25 +1305,37 @@ Theorem consistent_move_any vr t here src tgt uid t' rp uid' b b' : cwf t -> con
   book_apply b rp = Ok b' -> consistent_procs t' b'.
 Proof.
   intros Hw Hc H Hb. destruct (op_change_move _ _ _ _ _ _ _ _ _ Hw H) as (news & Hch & Hfit).
-  apply (consistent_procs_generic t t' b b' rp news Hc Hch Hfit Hb).
+  apply (book_consistent_procs_op t t' b b' rp news Hc Hch Hfit (reports_clear_move _ _ _ _ _ _ _ _ _ Hw H) Hb).
 Qed.
 
-(* no premise on the target (see op_change_movep) *)
+(* nested move: the folding alone (deletions first, then registration) needs the premise on the target, like
+   MoveP_proofs.consistent_movep: with the target inside the moved subtree the attached copy is deleted with the
+   source, and its processes / steps would be registered although they are gone (movep_book_apply_premise_needed
+   below).  The full engine step needs no premise: consistent_movep_any, consistent_steps_movep_any. *)
 Theorem consistent_steps_movep vr t here src tgt uid t' rp uid' b b' : cwf t -> consistent_steps t b ->
+  starts_with (tgt ++ src) (here ++ src) = false ->
   apply_opv vr t here (OpMoveP D src tgt) uid = Ok (t', rp, uid') ->
   book_apply b rp = Ok b' -> consistent_steps t' b'.
 Proof.
-  intros Hw Hc H Hb. destruct (op_change_movep _ _ _ _ _ _ _ _ _ Hw H) as (news & Hch & Hfit).
-  apply (consistent_steps_generic t t' b b' rp news Hc Hch Hfit Hb).
+  intros Hw Hc Hs1 H Hb. destruct (op_change_movep _ _ _ _ _ _ _ _ _ Hw H) as (news & Hch & Hfit).
+  apply (book_consistent_steps_op t t' b b' rp news Hc Hch Hfit (reports_clear_movep _ _ _ _ _ _ _ _ _ Hs1 H) Hb).
 Qed.
 
-(* MoveP_proofs.consistent_movep without its premise on the target *)
+(* NO premise on the target for the full engine step (what the store still holds): both tables *)
 Theorem consistent_movep_any vr t here src tgt uid t' rp uid' b b' : cwf t -> consistent_procs t b ->
   apply_opv vr t here (OpMoveP D src tgt) uid = Ok (t', rp, uid') ->
-  book_apply b rp = Ok b' -> consistent_procs t' b'.
+  engine_apply b t' rp = Ok b' -> consistent_procs t' b'.
 Proof.
   intros Hw Hc H Hb. destruct (op_change_movep _ _ _ _ _ _ _ _ _ Hw H) as (news & Hch & Hfit).
-  apply (consistent_procs_generic t t' b b' rp news Hc Hch Hfit Hb).
+  apply (engine_consistent_procs_op t t' b b' rp news (movep_wf _ _ _ _ _ _ _ _ _ _ _ _ _ Hw H) Hc Hch Hfit Hb).
+Qed.
+
+Theorem consistent_steps_movep_any vr t here src tgt uid t' rp uid' b b' : cwf t -> consistent_steps t b ->
+  apply_opv vr t here (OpMoveP D src tgt) uid = Ok (t', rp, uid') ->
+  engine_apply b t' rp = Ok b' -> consistent_steps t' b'.
+Proof.
+  intros Hw Hc H Hb. destruct (op_change_movep _ _ _ _ _ _ _ _ _ Hw H) as (news & Hch & Hfit).
+  apply (engine_consistent_steps_op t t' b b' rp news (movep_wf _ _ _ _ _ _ _ _ _ _ _ _ _ Hw H) Hc Hch Hfit Hb).
 Qed.
 
 (* ================= B. division ================= *)
@@ -1263,6 +1412,25 @@ Proof.
   - intros [Hor Hsw]. split; [exact Hor|]. intros d0 [<-|[]]. exact Hsw.
 Qed.
 
+(* the daughters' keys are new, the mother exists: no reported path lies under the mother *)
+Lemma reports_clear_divide vr t here m ds ch uid t' rp uid' : cwf t -> divide_ok t here ds ->
+  apply_opv vr t here (OpDivide D m ds ch) uid = Ok (t', rp, uid') -> reports_clear rp.
+Proof.
+  intros Hw (Hnd & Hnew) H. apply divide_inv3 in H.
+  destruct H as (u & g & c & mo & subs & t1 & Hd & Hl & Hds & Hca & Hdl & Hp & Hs & Hdel).
+  assert (Hwm : cwf mo) by apply (cwf_child u g c m mo (cwf_cget t here _ Hw Hd) Hl).
+  destruct (div_subs_props mo Hwm _ _ _ _ _ Hds) as (Hk & _).
+  assert (Hmo : cget t (here ++ [m]) = Some mo) by (rewrite cget_app, Hd, cget_cons, Hl; reflexivity).
+  intros q pi Hin. rewrite Hdel. intros d0 [<-|[]].
+  assert (Hn : In (q, pi) (sub_nodes here subs)).
+  { apply in_app_or in Hin. destruct Hin as [Hin|Hin].
+    - rewrite Hp in Hin. apply filter_In in Hin. destruct Hin as [Hin _]. exact Hin.
+    - rewrite Hs in Hin. apply filter_In in Hin. destruct Hin as [Hin _]. exact Hin. }
+  apply sub_nodes_under in Hn. destruct Hn as (k & r & Hkin & ->).
+  rewrite sw_mid. destruct (N.eqb m k) eqn:E; [|reflexivity]. apply N.eqb_eq in E. subst k. exfalso.
+  rewrite (Hnew m (Hk m Hkin)) in Hmo. discriminate Hmo.
+Qed.
+
 (* premises: daughter keys new and pairwise distinct (divide_ok); kit: mk_child_no_procs, mk_child_cwf,
    build_cwf, copy_cwf.  build_steps is NOT needed: Store.divide splits by is_step(). *)
 Theorem consistent_divide vr t here m ds ch uid t' rp uid' b b' : cwf t -> consistent_procs t b ->
@@ -1271,7 +1439,7 @@ Theorem consistent_divide vr t here m ds ch uid t' rp uid' b b' : cwf t -> consi
   book_apply b rp = Ok b' -> consistent_procs t' b'.
 Proof.
   intros Hw Hc Hok H Hb. destruct (op_change_divide _ _ _ _ _ _ _ _ _ _ Hw Hok H) as (news & Hch & Hfit & _).
-  apply (consistent_procs_generic t t' b b' rp news Hc Hch Hfit Hb).
+  apply (book_consistent_procs_op t t' b b' rp news Hc Hch Hfit (reports_clear_divide _ _ _ _ _ _ _ _ _ _ Hw Hok H) Hb).
 Qed.
 
 Theorem consistent_steps_divide vr t here m ds ch uid t' rp uid' b b' : cwf t -> consistent_steps t b ->
@@ -1280,7 +1448,7 @@ Theorem consistent_steps_divide vr t here m ds ch uid t' rp uid' b b' : cwf t ->
   book_apply b rp = Ok b' -> consistent_steps t' b'.
 Proof.
   intros Hw Hc Hok H Hb. destruct (op_change_divide _ _ _ _ _ _ _ _ _ _ Hw Hok H) as (news & Hch & Hfit & _).
-  apply (consistent_steps_generic t t' b b' rp news Hc Hch Hfit Hb).
+  apply (book_consistent_steps_op t t' b b' rp news Hc Hch Hfit (reports_clear_divide _ _ _ _ _ _ _ _ _ _ Hw Hok H) Hb).
 Qed.
 
 (* ================= C. every operation; histories ================= *)
@@ -1325,23 +1493,66 @@ Proof.
   - destruct (op_change_upd _ _ _ _ _ _ _ _ _ Hw H) as (_ & _ & Hw'). exact Hw'.
 Qed.
 
+(* for Engine.apply_update's folding alone one more premise: a nested move does not target the inside of the moved
+   subtree (for the other operations "no reported path under the reported deletion" follows from success, resp.
+   from op_ok) *)
+Definition bop_ok (t : cnode) (here : list key) (o : sop D) : Prop :=
+  op_ok t here o /\
+  match o with OpMoveP _ src tgt => starts_with (tgt ++ src) (here ++ src) = false | _ => True end.
+
+Lemma op_reports_clear vr t here o uid t' rp uid' : cwf t -> bop_ok t here o ->
+  apply_opv vr t here o uid = Ok (t', rp, uid') -> reports_clear rp.
+Proof.
+  intros Hw [Hok Hbk] H. destruct o as [k st|src tgt|src tgt|k d init|m ds ch|k|p|k v]; cbn [op_ok] in Hok.
+  - apply add_inv3 in H. destruct H as (nd & _ & _ & _ & _ & _ & Hp & Hs). apply (reports_clear_nil rp Hp Hs).
+  - apply (reports_clear_move _ _ _ _ _ _ _ _ _ Hw H).
+  - apply (reports_clear_movep _ _ _ _ _ _ _ _ _ Hbk H).
+  - apply generate_inv3 in H. destruct H as (r & _ & _ & _ & ->). apply reports_clear_nodel. reflexivity.
+  - apply (reports_clear_divide _ _ _ _ _ _ _ _ _ _ Hw Hok H).
+  - apply delete_inv3 in H. destruct H as (_ & _ & Hp & Hs). apply (reports_clear_nil rp Hp Hs).
+  - open_op H Hd. destruct (v_fix_delete_path vr).
+    + dres H t1 Ec. inversion H; subst. apply reports_clear_nil; reflexivity.
+    + inversion H; subst. apply reports_clear_nil; reflexivity.
+  - apply (upd_inv mk_child D build copy_procs) in H.
+    destruct H as (u & g & c & _ & _ & _ & ->). apply reports_clear_nil; reflexivity.
+Qed.
+
 (* one update carrying one operation keeps both tables consistent -- for every variant of the model *)
-Theorem consistent_op_any vr t here o uid t' rp uid' b b' : cwf t -> op_ok t here o ->
+Theorem consistent_op_any vr t here o uid t' rp uid' b b' : cwf t -> bop_ok t here o ->
   consistent_procs t b -> consistent_steps t b ->
   apply_opv vr t here o uid = Ok (t', rp, uid') -> book_apply b rp = Ok b' ->
   consistent_procs t' b' /\ consistent_steps t' b'.
 Proof.
-  intros Hw Hok Hcp Hcs H Hb. destruct (op_change _ _ _ _ _ _ _ _ Hw Hok H) as (news & Hch & Hfit).
-  split; [apply (consistent_procs_generic t t' b b' rp news Hcp Hch Hfit Hb)
-         |apply (consistent_steps_generic t t' b b' rp news Hcs Hch Hfit Hb)].
+  intros Hw Hok Hcp Hcs H Hb. destruct (op_change _ _ _ _ _ _ _ _ Hw (proj1 Hok) H) as (news & Hch & Hfit).
+  pose proof (op_reports_clear _ _ _ _ _ _ _ _ Hw Hok H) as Hcl.
+  split; [apply (book_consistent_procs_op t t' b b' rp news Hcp Hch Hfit Hcl Hb)
+         |apply (book_consistent_steps_op t t' b b' rp news Hcs Hch Hfit Hcl Hb)].
 Qed.
 
 (* the statement asked for: the faithful model with the repaired Store.move *)
-Theorem consistent_op t here o uid t' rp uid' b b' : cwf t -> op_ok t here o ->
+Theorem consistent_op t here o uid t' rp uid' b b' : cwf t -> bop_ok t here o ->
   consistent_procs t b -> consistent_steps t b ->
   apply_opv vfixed t here o uid = Ok (t', rp, uid') -> book_apply b rp = Ok b' ->
   consistent_procs t' b' /\ consistent_steps t' b'.
 Proof. apply consistent_op_any. Qed.
+
+(* THE FULL ENGINE STEP (deletions first, only what the store still holds): no premise beyond op_ok *)
+Theorem engine_consistent_op_any vr t here o uid t' rp uid' b b' : cwf t -> op_ok t here o ->
+  consistent_procs t b -> consistent_steps t b ->
+  apply_opv vr t here o uid = Ok (t', rp, uid') -> engine_apply b t' rp = Ok b' ->
+  consistent_procs t' b' /\ consistent_steps t' b'.
+Proof.
+  intros Hw Hok Hcp Hcs H Hb. destruct (op_change _ _ _ _ _ _ _ _ Hw Hok H) as (news & Hch & Hfit).
+  pose proof (apply_op_cwf _ _ _ _ _ _ _ _ Hw Hok H) as Hw'.
+  split; [apply (engine_consistent_procs_op t t' b b' rp news Hw' Hcp Hch Hfit Hb)
+         |apply (engine_consistent_steps_op t t' b b' rp news Hw' Hcs Hch Hfit Hb)].
+Qed.
+
+Theorem engine_consistent_op t here o uid t' rp uid' b b' : cwf t -> op_ok t here o ->
+  consistent_procs t b -> consistent_steps t b ->
+  apply_opv vfixed t here o uid = Ok (t', rp, uid') -> engine_apply b t' rp = Ok b' ->
+  consistent_procs t' b' /\ consistent_steps t' b'.
+Proof. apply engine_consistent_op_any. Qed.
 
 (* _add creates no process (mk_child_no_procs): both tables are as they were *)
 Theorem consistent_add vr t here k st uid t' rp uid' b b' : cwf t ->
@@ -1350,8 +1561,10 @@ Theorem consistent_add vr t here k st uid t' rp uid' b b' : cwf t ->
   consistent_procs t' b' /\ consistent_steps t' b'.
 Proof.
   intros Hw Hcp Hcs H Hb. destruct (op_change_add _ _ _ _ _ _ _ _ _ Hw H) as [Hch Hfit].
-  split; [apply (consistent_procs_generic t t' b b' rp [] Hcp Hch Hfit Hb)
-         |apply (consistent_steps_generic t t' b b' rp [] Hcs Hch Hfit Hb)].
+  apply add_inv3 in H. destruct H as (nd & _ & _ & _ & _ & _ & Hp & Hs).
+  pose proof (reports_clear_nil rp Hp Hs) as Hcl.
+  split; [apply (book_consistent_procs_op t t' b b' rp [] Hcp Hch Hfit Hcl Hb)
+         |apply (book_consistent_steps_op t t' b b' rp [] Hcs Hch Hfit Hcl Hb)].
 Qed.
 
 (* _delete by path tuple does nothing in the faithful model (K4): tree and reports are empty-handed, so the
@@ -1362,16 +1575,15 @@ Theorem consistent_deletepath t here p uid t' rp uid' b b' : cwf t ->
   t' = t /\ consistent_procs t' b' /\ consistent_steps t' b'.
 Proof.
   intros Hw Hcp Hcs H Hb. split; [apply (deletepath_noop _ _ _ _ _ _ _ H)|].
-  destruct (op_change_deletepath _ _ _ _ _ _ _ _ Hw H) as (Hch & Hfit & _).
-  split; [apply (consistent_procs_generic t t' b b' rp [] Hcp Hch Hfit Hb)
-         |apply (consistent_steps_generic t t' b b' rp [] Hcs Hch Hfit Hb)].
+  apply (consistent_op_any vfixed t here (OpDeletePath D p) uid t' rp uid' b b' Hw (conj I I) Hcp Hcs H Hb).
 Qed.
 
-(* a history of single-operation updates, each satisfying op_ok in the state it is applied to *)
+(* a history of single-operation updates, each satisfying bop_ok in the state it is applied to, the engine
+   folding the reports (book_apply) *)
 Inductive history (vr : variant) : list (list key * sop D) -> cnode -> book -> N -> cnode -> book -> N -> Prop :=
 | history_nil t b u : history vr [] t b u t b u
 | history_cons here o h t b u t1 rp u1 b1 t' b' u' :
-    op_ok t here o -> apply_opv vr t here o u = Ok (t1, rp, u1) -> book_apply b rp = Ok b1 ->
+    bop_ok t here o -> apply_opv vr t here o u = Ok (t1, rp, u1) -> book_apply b rp = Ok b1 ->
     history vr h t1 b1 u1 t' b' u' -> history vr ((here, o) :: h) t b u t' b' u'.
 
 Theorem consistent_history_any vr h t b u t' b' u' : history vr h t b u t' b' u' ->
@@ -1381,13 +1593,183 @@ Proof.
   intros Hh. induction Hh as [t b u|here o h t b u t1 rp u1 b1 t' b' u' Hok Hop Hb Hh IH]; intros Hw Hcp Hcs.
   - auto.
   - destruct (consistent_op_any _ _ _ _ _ _ _ _ _ _ Hw Hok Hcp Hcs Hop Hb) as [Hcp1 Hcs1].
-    apply (IH (apply_op_cwf _ _ _ _ _ _ _ _ Hw Hok Hop) Hcp1 Hcs1).
+    apply (IH (apply_op_cwf _ _ _ _ _ _ _ _ Hw (proj1 Hok) Hop) Hcp1 Hcs1).
 Qed.
 
 Theorem consistent_history h t b u t' b' u' : history vfixed h t b u t' b' u' ->
   cwf t -> consistent_procs t b -> consistent_steps t b ->
   cwf t' /\ consistent_procs t' b' /\ consistent_steps t' b'.
 Proof. apply consistent_history_any. Qed.
+
+(* ================= D. one update carrying SEVERAL operations; the full engine step; histories of updates ================= *)
+Notation apply_opsv vr := (apply_ops mk_child D build copy_procs vr).
+
+(* the operations of one update, in the order they are applied: each satisfies op_ok in the state it meets *)
+Fixpoint ops_ok (vr : variant) (t : cnode) (here : list key) (l : list (sop D)) (uid : N) : Prop :=
+  match l with
+  | [] => True
+  | o :: r => op_ok t here o /\
+              forall t1 rp1 u1, apply_opv vr t here o uid = Ok (t1, rp1, u1) -> ops_ok vr t1 here r u1
+  end.
+
+Lemma ops_fold_fit vr here l : forall t0 t rp0 n0 uid t' rp uid',
+  cwf t -> upd_fit t0 t rp0 n0 -> ops_ok vr t here l uid ->
+  fold_left (fun acc o =>
+               rbind acc (fun tru =>
+                 let '(t', rp, uid') := tru in
+                 rbind (apply_opv vr t' here o uid') (fun tru' =>
+                   let '(t'', rp', uid'') := tru' in Ok (t'', rapp rp rp', uid''))))
+            l (Ok (t, rp0, uid)) = Ok (t', rp, uid') ->
+  cwf t' /\ exists news, upd_fit t0 t' rp news.
+Proof.
+  induction l as [|o l IH]; intros t0 t rp0 n0 uid t' rp uid' Hw Hfit Hok H.
+  - cbn in H. inversion H; subst. split; [exact Hw|]. exists n0. exact Hfit.
+  - cbn [fold_left rbind] in H. destruct Hok as [Hok Hrest].
+    destruct (apply_opv vr t here o uid) as [[[t1 rp1] u1]|e] eqn:Eo; cbn [rbind] in H.
+    + destruct (op_change _ _ _ _ _ _ _ _ Hw Hok Eo) as (n1 & Hch & Hrf).
+      apply (IH t0 t1 (rapp rp0 rp1) (n0 ++ n1) u1 t' rp uid'
+                (apply_op_cwf _ _ _ _ _ _ _ _ Hw Hok Eo) (upd_fit_step _ _ _ _ _ _ _ Hfit Hch Hrf)
+                (Hrest t1 rp1 u1 eq_refl) H).
+    + rewrite fold_err in H by reflexivity. discriminate H.
+Qed.
+
+(* what one update did to the hierarchy, whatever the number of its operations *)
+Theorem apply_ops_fit vr t here ops uid t' rp uid' : cwf t ->
+  ops_ok vr t here (order_ops D ops) uid ->
+  apply_opsv vr t here ops uid = Ok (t', rp, uid') ->
+  cwf t' /\ exists news, upd_fit t t' rp news.
+Proof.
+  intros Hw Hok H. unfold apply_ops in H.
+  apply (ops_fold_fit vr here _ t t no_reports [] uid t' rp uid' Hw (upd_fit_refl t) Hok H).
+Qed.
+
+(* THE FULL ENGINE STEP AFTER ONE UPDATE OF ANY SHAPE: both tables follow the hierarchy.  Premises: every
+   operation meets op_ok in the state it is applied to; reports that put the same object at the same path agree on
+   is_step() (an object has one class; it holds whenever no path is reported twice) *)
+Theorem engine_consistent_ops_any vr t here ops uid t' rp uid' b b' : cwf t ->
+  ops_ok vr t here (order_ops D ops) uid -> consistent_procs t b -> consistent_steps t b ->
+  apply_opsv vr t here ops uid = Ok (t', rp, uid') -> reports_coherent rp ->
+  engine_apply b t' rp = Ok b' ->
+  cwf t' /\ consistent_procs t' b' /\ consistent_steps t' b'.
+Proof.
+  intros Hw Hok Hcp Hcs H Hco Hb.
+  destruct (apply_ops_fit _ _ _ _ _ _ _ _ Hw Hok H) as (Hw' & news & Hfit).
+  pose proof (reports_news_coherent _ _ _ _ Hfit Hco) as Hnc.
+  split; [exact Hw'|].
+  split; [apply (engine_consistent_procs_generic t t' b b' rp news Hw' Hcp Hfit Hnc Hb)
+         |apply (engine_consistent_steps_generic t t' b b' rp news Hw' Hcs Hfit Hnc Hb)].
+Qed.
+
+Theorem engine_consistent_ops t here ops uid t' rp uid' b b' : cwf t ->
+  ops_ok vfixed t here (order_ops D ops) uid -> consistent_procs t b -> consistent_steps t b ->
+  apply_opsv vfixed t here ops uid = Ok (t', rp, uid') -> reports_coherent rp ->
+  engine_apply b t' rp = Ok b' ->
+  cwf t' /\ consistent_procs t' b' /\ consistent_steps t' b'.
+Proof. apply engine_consistent_ops_any. Qed.
+
+(* a history of updates as the engine runs them (Corr/Structc.run_hist): Store.apply_update of the operations
+   addressed to one node, then Engine.apply_update's registration of what the store still holds *)
+Inductive engine_history (vr : variant)
+  : list (list key * list (sop D)) -> cnode -> book -> N -> cnode -> book -> N -> Prop :=
+| ehistory_nil t b u : engine_history vr [] t b u t b u
+| ehistory_cons here ops h t b u t1 rp u1 b1 t' b' u' :
+    ops_ok vr t here (order_ops D ops) u -> apply_opsv vr t here ops u = Ok (t1, rp, u1) ->
+    reports_coherent rp -> engine_apply b t1 rp = Ok b1 ->
+    engine_history vr h t1 b1 u1 t' b' u' -> engine_history vr ((here, ops) :: h) t b u t' b' u'.
+
+Theorem engine_consistent_history_any vr h t b u t' b' u' : engine_history vr h t b u t' b' u' ->
+  cwf t -> consistent_procs t b -> consistent_steps t b ->
+  cwf t' /\ consistent_procs t' b' /\ consistent_steps t' b'.
+Proof.
+  intros Hh. induction Hh as [t b u|here ops h t b u t1 rp u1 b1 t' b' u' Hok Hop Hco Hb Hh IH]; intros Hw Hcp Hcs.
+  - auto.
+  - destruct (engine_consistent_ops_any _ _ _ _ _ _ _ _ _ _ Hw Hok Hcp Hcs Hop Hco Hb) as (Hw1 & Hcp1 & Hcs1).
+    apply (IH Hw1 Hcp1 Hcs1).
+Qed.
+
+Theorem engine_consistent_history h t b u t' b' u' : engine_history vfixed h t b u t' b' u' ->
+  cwf t -> consistent_procs t b -> consistent_steps t b ->
+  cwf t' /\ consistent_procs t' b' /\ consistent_steps t' b'.
+Proof. apply engine_consistent_history_any. Qed.
+
+(* ---- the two updates the repair is about ---- *)
+Lemma apply_ops_two vr t here o1 o2 uid t' rp uid' : order_ops D [o1; o2] = [o1; o2] ->
+  apply_opsv vr t here [o1; o2] uid = Ok (t', rp, uid') ->
+  exists t1 rp1 u1 rp2, apply_opv vr t here o1 uid = Ok (t1, rp1, u1) /\
+    apply_opv vr t1 here o2 u1 = Ok (t', rp2, uid') /\ rp = rapp (rapp no_reports rp1) rp2.
+Proof.
+  intros Hord H. unfold apply_ops in H. rewrite Hord in H. cbn [fold_left rbind] in H.
+  destruct (apply_opv vr t here o1 uid) as [[[t1 rp1] u1]|e] eqn:E1; cbn [rbind] in H; [|discriminate H].
+  destruct (apply_opv vr t1 here o2 u1) as [[[t2 rp2] u2]|e] eqn:E2; cbn [rbind] in H; [|discriminate H].
+  inversion H; subst. exists t1, rp1, u1, rp2. auto.
+Qed.
+
+(* new nodes that are in the hierarchy when the next operation starts cannot share a path with what that one puts *)
+Lemma news_nodup_step t1 rp2 n1 n2 : NoDup (map fst n1) ->
+  (forall q pi, In (q, pi) n1 -> In (q, pi) (proc_nodes t1 [])) -> reports_fit t1 rp2 n2 ->
+  NoDup (map fst (n1 ++ n2)).
+Proof.
+  intros Hn1 Hin1 (Hn2 & Hfresh & _). rewrite map_app. apply nodup_app; [exact Hn1|exact Hn2|].
+  intros q Hq1 Hq2. apply in_map_iff in Hq1. destruct Hq1 as ([q1 pi1] & Heq1 & Hq1).
+  apply in_map_iff in Hq2. destruct Hq2 as ([q2 pi2] & Heq2 & Hq2). cbn [fst] in Heq1, Heq2. subst q1 q2.
+  apply (Hfresh q pi2 Hq2 pi1 (Hin1 q pi1 Hq1)).
+Qed.
+
+(* a compartment generated and deleted again by the same update: the engine's tables are as consistent as before
+   (nothing of it is registered).  Premise: the key is new. *)
+Theorem engine_generate_delete_consistent vr t here k d init uid t' rp uid' b b' : cwf t ->
+  consistent_procs t b -> consistent_steps t b -> cget t (here ++ [k]) = None ->
+  apply_opsv vr t here [OpGenerate D k d init; OpDelete D k] uid = Ok (t', rp, uid') ->
+  engine_apply b t' rp = Ok b' ->
+  cwf t' /\ consistent_procs t' b' /\ consistent_steps t' b'.
+Proof.
+  intros Hw Hcp Hcs Hnone H Hb.
+  destruct (apply_ops_two vr t here (OpGenerate D k d init) (OpDelete D k) uid t' rp uid' eq_refl H) as (t1 & rp1 & u1 & rp2 & E1 & E2 & ->).
+  assert (Hok1 : op_ok t here (OpGenerate D k d init)) by exact Hnone.
+  pose proof (apply_op_cwf _ _ _ _ _ _ _ _ Hw Hok1 E1) as Hw1.
+  pose proof (apply_op_cwf vr t1 here (OpDelete D k) u1 t' rp2 uid' Hw1 I E2) as Hw'.
+  destruct (op_change_generate _ _ _ _ _ _ _ _ _ _ Hw Hnone E1) as (n1 & Hch1 & Hrf1).
+  destruct (op_change_delete _ _ _ _ _ _ _ _ Hw1 E2) as [Hch2 Hrf2].
+  pose proof (upd_fit_step _ _ _ _ _ _ _ (upd_fit_step _ _ _ _ _ _ _ (upd_fit_refl t) Hch1 Hrf1) Hch2 Hrf2) as Hfit.
+  assert (Hnc : news_coherent (([] ++ n1) ++ [])).
+  { apply nodup_news_coherent. cbn [app]. rewrite app_nil_r. exact (proj1 Hrf1). }
+  split; [exact Hw'|].
+  split; [apply (engine_consistent_procs_generic t t' b b' _ _ Hw' Hcp Hfit Hnc Hb)
+         |apply (engine_consistent_steps_generic t t' b b' _ _ Hw' Hcs Hfit Hnc Hb)].
+Qed.
+
+(* a compartment moved away and a new one generated under its key by the same update: the moved processes are
+   registered at their new place, the new ones at the old place (the pinned engine dropped these: see
+   book_apply_pinned_refuted).  No premise besides success: the key is free once its holder has moved. *)
+Theorem engine_move_generate_consistent vr t here k tgt d init uid t' rp uid' b b' : cwf t ->
+  consistent_procs t b -> consistent_steps t b ->
+  apply_opsv vr t here [OpMove D k tgt; OpGenerate D k d init] uid = Ok (t', rp, uid') ->
+  engine_apply b t' rp = Ok b' ->
+  cwf t' /\ consistent_procs t' b' /\ consistent_steps t' b'.
+Proof.
+  intros Hw Hcp Hcs H Hb.
+  destruct (apply_ops_two vr t here (OpMove D k tgt) (OpGenerate D k d init) uid t' rp uid' eq_refl H) as (t1 & rp1 & u1 & rp2 & E1 & E2 & ->).
+  pose proof (apply_op_cwf vr t here (OpMove D k tgt) uid t1 rp1 u1 Hw I E1) as Hw1.
+  assert (Hnone : cget t1 (here ++ [k]) = None).
+  { destruct (move_target_not_inside _ _ _ _ _ _ _ _ _ Hw E1) as [Hs1 Hs2].
+    pose proof E1 as E1'. apply move_inv3 in E1'.
+    destruct E1' as (u & g & c & node & t0 & _ & _ & _ & Hdl & Hcs0 & _).
+    apply sig_at_None. rewrite (cset_frame _ _ _ _ (here ++ [k]) Hcs0 Hs2).
+    apply cget_None_sig. apply (cdel_gone _ _ _ Hw (snoc_not_nil here k) Hdl). }
+  assert (Hok2 : op_ok t1 here (OpGenerate D k d init)) by exact Hnone.
+  pose proof (apply_op_cwf _ _ _ _ _ _ _ _ Hw1 Hok2 E2) as Hw'.
+  destruct (op_change_move _ _ _ _ _ _ _ _ _ Hw E1) as (n1 & Hch1 & Hrf1).
+  destruct (op_change_generate _ _ _ _ _ _ _ _ _ _ Hw1 Hnone E2) as (n2 & Hch2 & Hrf2).
+  pose proof (upd_fit_step _ _ _ _ _ _ _ (upd_fit_step _ _ _ _ _ _ _ (upd_fit_refl t) Hch1 Hrf1) Hch2 Hrf2) as Hfit.
+  assert (Hnc : news_coherent (([] ++ n1) ++ n2)).
+  { apply nodup_news_coherent. cbn [app]. apply (news_nodup_step t1 rp2 n1 n2 (proj1 Hrf1)); [|exact Hrf2].
+    intros q pi Hin. apply Hch1. split; [right; exact Hin|].
+    destruct (op_upd_fit _ _ _ _ Hch1 Hrf1) as [Hu _].
+    apply (reports_clear_move _ _ _ _ _ _ _ _ _ Hw E1 q pi (upd_fit_reported _ _ _ _ _ _ Hu Hin)). }
+  split; [exact Hw'|].
+  split; [apply (engine_consistent_procs_generic t t' b b' _ _ Hw' Hcp Hfit Hnc Hb)
+         |apply (engine_consistent_steps_generic t t' b b' _ _ Hw' Hcs Hfit Hnc Hb)].
+Qed.
 
 End Kit2.
 
@@ -1427,7 +1809,7 @@ Qed.
 (* ---- the theorems at the concrete kit ---- *)
 Notation kop vr := (apply_op mk_child N build copy_procs vr).
 
-Theorem structc_consistent_op t here o uid t' rp uid' b b' : cwf t -> op_ok N t here o ->
+Theorem structc_consistent_op t here o uid t' rp uid' b b' : cwf t -> bop_ok N t here o ->
   consistent_procs t b -> consistent_steps t b ->
   kop vfixed t here o uid = Ok (t', rp, uid') -> book_apply b rp = Ok b' ->
   consistent_procs t' b' /\ consistent_steps t' b'.
@@ -1445,6 +1827,36 @@ Proof.
                             structc_build_cwf structc_build_steps structc_copy_cwf).
 Qed.
 
+(* the full engine step at the concrete kit: one operation, one update of any shape, histories of updates *)
+Theorem structc_engine_consistent_op t here o uid t' rp uid' b b' : cwf t -> op_ok N t here o ->
+  consistent_procs t b -> consistent_steps t b ->
+  kop vfixed t here o uid = Ok (t', rp, uid') -> kengine_apply b t' rp = Ok b' ->
+  consistent_procs t' b' /\ consistent_steps t' b'.
+Proof.
+  apply (engine_consistent_op mk_child N build copy_procs structc_mk_child_no_procs structc_mk_child_cwf
+                              structc_build_cwf structc_build_steps structc_copy_cwf).
+Qed.
+
+Theorem structc_engine_consistent_ops t here ops uid t' rp uid' b b' : cwf t ->
+  ops_ok mk_child N build copy_procs vfixed t here (order_ops N ops) uid ->
+  consistent_procs t b -> consistent_steps t b ->
+  kapply_ops vfixed t here ops uid = Ok (t', rp, uid') -> reports_coherent rp ->
+  kengine_apply b t' rp = Ok b' ->
+  cwf t' /\ consistent_procs t' b' /\ consistent_steps t' b'.
+Proof.
+  apply (engine_consistent_ops mk_child N build copy_procs structc_mk_child_no_procs structc_mk_child_cwf
+                               structc_build_cwf structc_build_steps structc_copy_cwf).
+Qed.
+
+Theorem structc_engine_consistent_history h t b u t' b' u' :
+  engine_history mk_child N build copy_procs vfixed h t b u t' b' u' ->
+  cwf t -> consistent_procs t b -> consistent_steps t b ->
+  cwf t' /\ consistent_procs t' b' /\ consistent_steps t' b'.
+Proof.
+  apply (engine_consistent_history mk_child N build copy_procs structc_mk_child_no_procs structc_mk_child_cwf
+                                   structc_build_cwf structc_build_steps structc_copy_cwf).
+Qed.
+
 (* the engine the harness builds, reduced: a holder process (key 12) and a colony (key 10, a glob) *)
 Definition ex_root : cnode :=
   CDir 0 false [(12%N, CProc 1 {| pi_step := false; pi_in_steps := false; pi_flow := None; pi_obj := 2%N |});
@@ -1458,9 +1870,10 @@ Proof.
   split; [unfold ex_root; wf_tree|]. split; (split; [intros x; vm_compute; tauto|vm_compute; nd_keys]).
 Qed.
 
+Ltac solve_op_ok :=
+  cbn; first [reflexivity|split; [nd_keys|intros k Hk; cbn in Hk; intuition (subst; reflexivity)]|exact I].
 Ltac run_history :=
-  repeat (eapply history_cons; [cbn; first [reflexivity|split; [nd_keys|intros k Hk; cbn in Hk; intuition (subst; reflexivity)]|exact I]
-                               |vm_compute; reflexivity|vm_compute; reflexivity|]);
+  repeat (eapply history_cons; [split; solve_op_ok|vm_compute; reflexivity|vm_compute; reflexivity|]);
   apply history_nil.
 
 (* K8 does not touch the tables.  A compartment with a deriver and two flow steps (kind 3) is generated at
@@ -1581,7 +1994,8 @@ Qed.
 
 (* ---- the premise of movep_reports / movep_reports_steps is needed for those statements ---- *)
 (* the target [1;2] is the moved node itself: the attached copy [1;2;1;2] goes with the source, its step stays
-   reported -- and is dropped again by the engine, which is why consistent_steps_movep needs no premise *)
+   reported -- the full engine step does not register it (the store does not hold it), the folding alone would:
+   movep_book_apply_premise_needed below *)
 Definition cxm_tree3 : cnode :=
   CDir 0%N false [(1%N, CDir 1%N false [(2%N, CDir 2%N false
      [(5%N, CProc 5%N {| pi_step := true; pi_in_steps := true; pi_flow := Some []; pi_obj := 6%N |})])])].
@@ -1597,6 +2011,160 @@ Proof.
   eexists. eexists. eexists. split; [vm_compute; reflexivity|].
   split; [unfold cxm_tree3; wf_tree|]. split; [vm_compute; reflexivity|].
   split; [|vm_compute; reflexivity]. eexists. split; [vm_compute; left; reflexivity|reflexivity].
+Qed.
+
+(* ================= 7. deletions first, only what the store still holds: the record of the pinned order ================= *)
+(* the reduced engine with a second colony (key 11) and one compartment (key 20, a counting process, object 107)
+   in the first *)
+Definition pin_root : cnode :=
+  CDir 0 false [(12%N, CProc 1 {| pi_step := false; pi_in_steps := false; pi_flow := None; pi_obj := 2%N |});
+                (10%N, CDir 3 true [(20%N, fst (build 0%N 100%N))]); (11%N, CDir 4 true [])].
+Definition pin_book : book :=
+  {| b_procs := [([12%N], 2%N); ([10%N; 20%N; kCnt], 107%N)]; b_steps := []; b_graph := empty_graph;
+     pub_processes := [([12%N], 2%N); ([10%N; 20%N; kCnt], 107%N)]; pub_steps := [];
+     pub_topology := [[12%N]; [10%N; 20%N; kCnt]]; pub_flow := [] |}.
+
+Lemma pin_root_ok : cwf pin_root /\ consistent_procs pin_root pin_book /\ consistent_steps pin_root pin_book.
+Proof.
+  split; [unfold pin_root, build; cbn; wf_tree|]. split; (split; [intros x; vm_compute; tauto|vm_compute; nd_keys]).
+Qed.
+
+(* ONE UPDATE MOVES COMPARTMENT 20 TO THE OTHER COLONY AND GENERATES A NEW COMPARTMENT UNDER KEY 20.
+   The pinned Engine.apply_update (register everything reported, then drop everything under a reported deletion)
+   loses the new compartment's process: it is a process node of the new hierarchy, it is not in the process table.
+   The repaired step (deletions first, then what the store still holds) registers both. *)
+Theorem book_apply_pinned_refuted :
+  exists t' rp u' bp be,
+    cwf pin_root /\ consistent_procs pin_root pin_book /\ consistent_steps pin_root pin_book /\
+    kapply_ops vfixed pin_root [10%N] [OpMove N 20%N [11%N]; OpGenerate N 20%N 0%N (Nd [])] 200%N = Ok (t', rp, u') /\
+    kbook_apply_pinned pin_book rp = Ok bp /\ kengine_apply pin_book t' rp = Ok be /\
+    In ([10%N; 20%N; kCnt], 207%N) (proc_paths t') /\ In ([11%N; 20%N; kCnt], 107%N) (proc_paths t') /\
+    ~ In [10%N; 20%N; kCnt] (map fst (b_procs bp)) /\ ~ consistent_procs t' bp /\
+    In ([10%N; 20%N; kCnt], 207%N) (b_procs be) /\ In ([11%N; 20%N; kCnt], 107%N) (b_procs be) /\
+    consistent_procs t' be /\ consistent_steps t' be.
+Proof.
+  destruct pin_root_ok as (Hw & Hcp & Hcs).
+  eexists. eexists. eexists. eexists. eexists.
+  split; [exact Hw|]. split; [exact Hcp|]. split; [exact Hcs|].
+  split; [vm_compute; reflexivity|]. split; [vm_compute; reflexivity|]. split; [vm_compute; reflexivity|].
+  split; [vm_compute; tauto|]. split; [vm_compute; tauto|].
+  split; [vm_compute; intros [H|[H|[]]]; discriminate H|].
+  split.
+  { intros [Hss _]. specialize (proj2 (Hss ([10%N; 20%N; kCnt], 207%N))). vm_compute.
+    intros Hx. destruct Hx as [H|[H|[]]]; [tauto|discriminate H|discriminate H]. }
+  split; [vm_compute; tauto|]. split; [vm_compute; tauto|].
+  split; (split; [intros x; vm_compute; tauto|vm_compute; nd_keys]).
+Qed.
+
+(* the general theorem at this update: engine_move_generate_consistent needs nothing but the success of the update *)
+Example pinned_refuted_by_theorem :
+  forall t' rp u' be,
+    kapply_ops vfixed pin_root [10%N] [OpMove N 20%N [11%N]; OpGenerate N 20%N 0%N (Nd [])] 200%N = Ok (t', rp, u') ->
+    kengine_apply pin_book t' rp = Ok be -> cwf t' /\ consistent_procs t' be /\ consistent_steps t' be.
+Proof.
+  intros t' rp u' be H Hb. destruct pin_root_ok as (Hw & Hcp & Hcs).
+  apply (engine_move_generate_consistent mk_child N build copy_procs structc_mk_child_no_procs structc_mk_child_cwf
+           structc_build_cwf structc_build_steps structc_copy_cwf vfixed pin_root [10%N] 20%N [11%N] 0%N (Nd []) 200%N
+           t' rp u' pin_book be Hw Hcp Hcs H Hb).
+Qed.
+
+(* ONE UPDATE GENERATES COMPARTMENT 21 AND DELETES IT AGAIN.  Why "only what the store still holds": the folding
+   with the deletions first but without that filter (book_apply on the raw reports) registers the process of a
+   compartment that is gone; the full step registers nothing and the table is as before.  (The pinned code raised
+   here: it re-read every reported node.) *)
+Theorem engine_held_needed :
+  exists t' rp u' bb be,
+    kapply_ops vfixed pin_root [10%N] [OpGenerate N 21%N 0%N (Nd []); OpDelete N 21%N] 200%N = Ok (t', rp, u') /\
+    cget t' [10%N; 21%N] = None /\
+    kbook_apply pin_book rp = Ok bb /\ kengine_apply pin_book t' rp = Ok be /\
+    In ([10%N; 21%N; kCnt], 207%N) (b_procs bb) /\ ~ consistent_procs t' bb /\
+    b_procs be = b_procs pin_book /\ consistent_procs t' be /\ consistent_steps t' be.
+Proof.
+  eexists. eexists. eexists. eexists. eexists.
+  split; [vm_compute; reflexivity|]. split; [vm_compute; reflexivity|].
+  split; [vm_compute; reflexivity|]. split; [vm_compute; reflexivity|].
+  split; [vm_compute; tauto|].
+  split.
+  { intros [Hss _]. specialize (proj1 (Hss ([10%N; 21%N; kCnt], 207%N))). vm_compute.
+    intros Hx. destruct Hx as [H|[H|[]]]; [tauto|discriminate H|discriminate H]. }
+  split; [vm_compute; reflexivity|].
+  split; (split; [intros x; vm_compute; tauto|vm_compute; nd_keys]).
+Qed.
+
+Example generate_delete_by_theorem :
+  forall t' rp u' be,
+    kapply_ops vfixed pin_root [10%N] [OpGenerate N 21%N 0%N (Nd []); OpDelete N 21%N] 200%N = Ok (t', rp, u') ->
+    kengine_apply pin_book t' rp = Ok be -> cwf t' /\ consistent_procs t' be /\ consistent_steps t' be.
+Proof.
+  intros t' rp u' be H Hb. destruct pin_root_ok as (Hw & Hcp & Hcs).
+  apply (engine_generate_delete_consistent mk_child N build copy_procs structc_mk_child_no_procs structc_mk_child_cwf
+           structc_build_cwf structc_build_steps structc_copy_cwf vfixed pin_root [10%N] 21%N 0%N (Nd []) 200%N
+           t' rp u' pin_book be Hw Hcp Hcs eq_refl H Hb).
+Qed.
+
+(* a history of updates as the engine runs them, each carrying several operations: compartment 20 is moved to the
+   other colony while a new 20 is generated; 21 is generated and deleted at once; the moved compartment is divided
+   into two inheriting daughters.  The premises of engine_consistent_history are met (ops_ok and the coherence of
+   the reports by computation); both tables follow the hierarchy. *)
+Ltac solve_ops_ok :=
+  match goal with
+  | |- ops_ok ?a ?b ?c ?d ?vr ?t ?here ?l ?u =>
+    let l' := eval vm_compute in l in change (ops_ok a b c d vr t here l' u)
+  end;
+  cbn [ops_ok];
+  repeat (split; [solve_op_ok
+                 |let E := fresh "E" in intros ? ? ? E; vm_compute in E; inversion E; subst; clear E; cbn [ops_ok]]);
+  exact I.
+Ltac run_engine_history :=
+  repeat (eapply ehistory_cons; [solve_ops_ok|vm_compute; reflexivity
+                                |apply reports_coherentb_sound; vm_compute; reflexivity|vm_compute; reflexivity|]);
+  apply ehistory_nil.
+
+Example engine_history_example :
+  exists t' b' u',
+    engine_history mk_child N build copy_procs vfixed
+      [([10%N], [OpGenerate N 20%N 1%N (Nd []); OpMove N 20%N [11%N]]);
+       ([10%N], [OpDelete N 21%N; OpGenerate N 21%N 3%N (Nd [])]);
+       ([11%N], [OpDivide N 20%N [(21%N, None, Nd []); (22%N, None, Nd [])] []])]
+      pin_root pin_book 200%N t' b' u' /\
+    cwf t' /\ consistent_procs t' b' /\ consistent_steps t' b' /\
+    map fst (b_procs b') = [[12%N]; [10%N; 20%N; kCnt]; [11%N; 21%N; kCnt]; [11%N; 22%N; kCnt]] /\
+    map fst (b_steps b') = [[10%N; 20%N; kDrv]].
+Proof.
+  eexists. eexists. eexists.
+  match goal with |- ?H /\ _ => assert (Hh : H) by run_engine_history end.
+  split; [exact Hh|]. destruct pin_root_ok as (Hw & Hcp & Hcs).
+  destruct (structc_engine_consistent_history _ _ _ _ _ _ _ Hh Hw Hcp Hcs) as (Hw' & Hc1 & Hc2).
+  split; [exact Hw'|]. split; [exact Hc1|]. split; [exact Hc2|]. split; vm_compute; reflexivity.
+Qed.
+
+(* A NESTED MOVE INTO THE MOVED SUBTREE ITSELF (movep_reports_steps_premise_needed): the attached copy goes with the
+   source.  Folding the raw reports with the deletions first registers the reported step although it is gone: the
+   premise of consistent_movep / consistent_steps_movep is needed for book_apply.  The full step registers nothing
+   (the store does not hold it), as did the pinned order (register, then delete). *)
+Definition cxm_book3 : book :=
+  {| b_procs := []; b_steps := [([1%N; 2%N; 5%N], 6%N)]; b_graph := empty_graph;
+     pub_processes := []; pub_steps := [([1%N; 2%N; 5%N], 6%N)]; pub_topology := [[1%N; 2%N; 5%N]]; pub_flow := [] |}.
+
+Example movep_book_apply_premise_needed :
+  exists t' rp uid' bb be,
+    cwf cxm_tree3 /\ consistent_procs cxm_tree3 cxm_book3 /\ consistent_steps cxm_tree3 cxm_book3 /\
+    apply_op cx_mk_child unit cx_build cx_copy vfixed cxm_tree3 [] (OpMoveP unit [1%N; 2%N] [1%N; 2%N]) 10%N
+      = Ok (t', rp, uid') /\
+    book_apply cxm_book3 rp = Ok bb /\ engine_apply cxm_book3 t' rp = Ok be /\
+    step_paths t' = [] /\ b_steps bb = [([1%N; 2%N; 1%N; 2%N; 5%N], 6%N)] /\ ~ consistent_steps t' bb /\
+    b_steps be = [] /\ consistent_procs t' be /\ consistent_steps t' be.
+Proof.
+  eexists. eexists. eexists. eexists. eexists.
+  split; [unfold cxm_tree3; wf_tree|].
+  split; [split; [intros x; vm_compute; tauto|vm_compute; nd_keys]|].
+  split; [split; [intros x; vm_compute; tauto|vm_compute; nd_keys]|].
+  split; [vm_compute; reflexivity|]. split; [vm_compute; reflexivity|]. split; [vm_compute; reflexivity|].
+  split; [vm_compute; reflexivity|]. split; [vm_compute; reflexivity|].
+  split.
+  { intros [Hss _]. specialize (proj1 (Hss ([1%N; 2%N; 1%N; 2%N; 5%N], 6%N))). vm_compute. tauto. }
+  split; [vm_compute; reflexivity|].
+  split; (split; [intros x; vm_compute; tauto|vm_compute; nd_keys]).
 Qed.
 
 Print Assumptions book_apply_steps_eq.
@@ -1617,6 +2185,7 @@ Print Assumptions consistent_steps_move.
 Print Assumptions consistent_move_any.
 Print Assumptions consistent_steps_movep.
 Print Assumptions consistent_movep_any.
+Print Assumptions consistent_steps_movep_any.
 Print Assumptions divide_reports.
 Print Assumptions divide_reports_procs.
 Print Assumptions divide_reports_steps.
@@ -1625,12 +2194,31 @@ Print Assumptions consistent_steps_divide.
 Print Assumptions apply_op_cwf.
 Print Assumptions consistent_op_any.
 Print Assumptions consistent_op.
+Print Assumptions engine_consistent_op_any.
+Print Assumptions engine_consistent_op.
+Print Assumptions apply_ops_fit.
+Print Assumptions engine_consistent_ops_any.
+Print Assumptions engine_consistent_ops.
+Print Assumptions engine_consistent_history_any.
+Print Assumptions engine_consistent_history.
+Print Assumptions engine_generate_delete_consistent.
+Print Assumptions engine_move_generate_consistent.
 Print Assumptions consistent_add.
 Print Assumptions consistent_deletepath.
 Print Assumptions consistent_history_any.
 Print Assumptions consistent_history.
 Print Assumptions structc_consistent_op.
 Print Assumptions structc_consistent_history.
+Print Assumptions structc_engine_consistent_op.
+Print Assumptions structc_engine_consistent_ops.
+Print Assumptions structc_engine_consistent_history.
+Print Assumptions book_apply_pinned_refuted.
+Print Assumptions pinned_refuted_by_theorem.
+Print Assumptions engine_held_needed.
+Print Assumptions generate_delete_by_theorem.
+Print Assumptions movep_book_apply_premise_needed.
+Print Assumptions engine_history_example.
+Print Assumptions reports_coherentb_sound.
 Print Assumptions k8_tables_consistent_publication_stale.
 Print Assumptions k6_tables_consistent_publication_stale.
 Print Assumptions divide_existing_key_counterexample.
